@@ -1,1 +1,1788 @@
-(* placeholder *)
+(* Proofs about the engine model (Mdk/Engine.v), exported to Props/C01.v C02.v C06.v C07.v C08.v. *)
+From MDK Require Import Base.Prelude Base.AMap Mdk.Engine Mdk.EngineSpec.
+
+(* ================================================================ association-map facts (keys in N) *)
+Section DMap.
+  Context {V : Type}.
+  Implicit Types (m : list (N * V)).
+
+  Lemma dget_aset_same k (v : V) m : dget k (aset N.eqb k v m) = Some v.
+  Proof.
+    induction m as [|[k' v'] r IH]; cbn [aset aget].
+    - rewrite N.eqb_refl. reflexivity.
+    - destruct (N.eqb_spec k k') as [E|E]; cbn [aget].
+      + rewrite N.eqb_refl. reflexivity.
+      + destruct (N.eqb_spec k k') as [E'|_]; [contradiction|]. exact IH.
+  Qed.
+
+  Lemma dget_aset_other k k' (v : V) m : k' <> k -> dget k' (aset N.eqb k v m) = dget k' m.
+  Proof.
+    intros Hne. induction m as [|[k2 v2] r IH]; cbn [aset aget].
+    - destruct (N.eqb_spec k' k) as [E|_]; [contradiction|reflexivity].
+    - destruct (N.eqb_spec k k2) as [E|E]; cbn [aget].
+      + subst k2. destruct (N.eqb_spec k' k) as [E'|_]; [contradiction|reflexivity].
+      + destruct (k' =? k2); [reflexivity|exact IH].
+  Qed.
+
+  Lemma dget_In k (v : V) m : dget k m = Some v -> In (k, v) m.
+  Proof.
+    induction m as [|[k' v'] r IH]; cbn [aget]; [discriminate|].
+    destruct (N.eqb_spec k k') as [E|E].
+    - subst k'. intros [= ->]. left. reflexivity.
+    - intros H. right. exact (IH H).
+  Qed.
+
+  Lemma aset_keys_in k k' (v : V) m : In k' (map fst (aset N.eqb k v m)) <-> k' = k \/ In k' (map fst m).
+  Proof.
+    induction m as [|[k2 v2] r IH]; cbn [aset map fst In].
+    - split; [intros [H|[]]; left; symmetry; exact H | intros [H|[]]; left; symmetry; exact H].
+    - destruct (N.eqb_spec k k2) as [E|E]; cbn [map fst In].
+      + subst k2. split.
+        * intros [H|H]; [left; symmetry; exact H|right; right; exact H].
+        * intros [H|[H|H]]; [left; symmetry; exact H|left; exact H|right; exact H].
+      + rewrite IH. split.
+        * intros [H|[H|H]]; [right; left; exact H|left; exact H|right; right; exact H].
+        * intros [H|[H|H]]; [right; left; exact H|left; exact H|right; right; exact H].
+  Qed.
+
+  Lemma aset_nodup k (v : V) m : NoDup (map fst m) -> NoDup (map fst (aset N.eqb k v m)).
+  Proof.
+    induction m as [|[k2 v2] r IH]; cbn [aset map fst]; intros Hnd.
+    - constructor; [intros []|constructor].
+    - inversion Hnd as [|? ? Hnotin Hnd']; subst.
+      destruct (N.eqb_spec k k2) as [E|E]; cbn [map fst].
+      + subst k2. constructor; assumption.
+      + constructor; [|exact (IH Hnd')].
+        rewrite aset_keys_in. intros [H|H]; [|exact (Hnotin H)]. congruence.
+  Qed.
+
+  Lemma filter_key_absent k m : ~ In k (map fst m) -> filter (fun kv => fst kv =? k) m = [].
+  Proof.
+    induction m as [|[k' v'] r IH]; cbn [filter map fst In]; intros Hn; [reflexivity|].
+    destruct (N.eqb_spec k' k) as [E|E].
+    - exfalso. apply Hn. left. exact E.
+    - apply IH. intros H. apply Hn. right. exact H.
+  Qed.
+
+  Lemma aset_filter_one k (v : V) m :
+    NoDup (map fst m) -> length (filter (fun kv => fst kv =? k) (aset N.eqb k v m)) = 1%nat.
+  Proof.
+    induction m as [|[k2 v2] r IH]; cbn [aset map fst]; intros Hnd.
+    - cbn [filter fst]. rewrite N.eqb_refl. reflexivity.
+    - inversion Hnd as [|? ? Hnotin Hnd']; subst.
+      destruct (N.eqb_spec k k2) as [E|E].
+      + subst k2. cbn [filter fst]. rewrite N.eqb_refl. cbn [length].
+        rewrite (filter_key_absent k r Hnotin). reflexivity.
+      + cbn [filter fst]. destruct (N.eqb_spec k2 k) as [E'|_]; [congruence|]. exact (IH Hnd').
+  Qed.
+
+  Lemma dget_map_inv (h : N * V -> N * V) k v m :
+    (forall kv, fst (h kv) = fst kv) ->
+    dget k (map h m) = Some v -> exists v0, dget k m = Some v0 /\ h (k, v0) = (k, v).
+  Proof.
+    intros Hh. induction m as [|[k' v'] r IH]; cbn [aget map]; [discriminate|].
+    destruct (h (k', v')) as [k2 v2] eqn:Eh.
+    assert (k2 = k') as -> by (specialize (Hh (k', v')); rewrite Eh in Hh; exact Hh).
+    cbn [aget]. destruct (N.eqb_spec k k') as [E|E].
+    - subst k'. intros [= ->]. exists v'. split; [reflexivity|exact Eh].
+    - exact IH.
+  Qed.
+
+  Lemma dget_map (h : N * V -> N * V) k m :
+    (forall kv, fst (h kv) = fst kv) ->
+    dget k (map h m) = match dget k m with Some v => Some (snd (h (k, v))) | None => None end.
+  Proof.
+    intros Hh. induction m as [|[k' v'] r IH]; cbn [aget map]; [reflexivity|].
+    destruct (h (k', v')) as [k2 v2] eqn:Eh.
+    assert (k2 = k') as -> by (specialize (Hh (k', v')); rewrite Eh in Hh; exact Hh).
+    cbn [aget]. destruct (N.eqb_spec k k') as [E|E].
+    - subst k'. rewrite Eh. reflexivity.
+    - exact IH.
+  Qed.
+
+  Lemma map_keys_same (h : N * V -> N * V) m : (forall kv, fst (h kv) = fst kv) -> map fst (map h m) = map fst m.
+  Proof. intros Hh. rewrite map_map. apply map_ext. exact Hh. Qed.
+End DMap.
+
+(* ================================================================ a flat presentation of `process` *)
+Definition blockedb (c : client) (e : event) : bool :=
+  match dget (e_id e) (dedup c) with
+  | Some r => (d_state r =? PS_FAILED) || (d_state r =? PS_INVALID)
+  | None => false end.
+
+Definition ens (c : client) : client := set_core c (ensure_secret (kc c)).
+
+Definition wrong_epoch (k : core) (e : event) : bool :=
+  if e_kind e =? 1 then k_epoch k <? e_epoch e else negb (e_epoch e =? k_epoch k).
+
+Definition sync (c : client) : client := set_core c (with_rec_epoch (kc c) (k_epoch (kc c))).
+
+Definition late (c : client) (e : event) (rec_epoch : N) : client * rk :=
+  match dget (e_id e) (dedup c) with
+  | Some r => if d_state r =? PS_COMMIT then (sync c, RCommit) else fail_unprocessable c e rec_epoch
+  | None => fail_unprocessable c e rec_epoch
+  end.
+
+Definition own_here (c : client) (e : event) : client * rk :=
+  let k := kc c in
+  match (if e_kind e =? 0 then k_pending k else None) with
+  | Some cm => apply_commit c e cm
+  | None =>
+       match dget (e_id e) (dedup c) with
+       | None => (c, RErr)
+       | Some r =>
+         if (d_state r =? PS_CREATED) || (d_state r =? PS_RETRY) then
+           match d_msg r with
+           | Some m => match dget m (msgs c) with
+                       | Some mr => (put_dedup (set_msgs c (aset N.eqb m (mkM MS_PROCESSED (m_epoch mr) (m_wrapper mr) (m_created mr)) (msgs c)))
+                                               (e_id e) PS_PROCESSED (d_epoch r) (Some m), RApp)
+                       | None => (c, if d_state r =? PS_CREATED then RErr else RUnproc)
+                       end
+           | None => (c, if d_state r =? PS_CREATED then RErr else RUnproc)
+           end
+         else if d_state r =? PS_COMMIT
+         then (sync c, RCommit)
+         else (c, RUnproc)
+       end
+  end.
+
+Definition app_here (c : client) (e : event) (rec_epoch : N) : client * rk :=
+  let k := kc c in
+  let readable := (e_epoch e =? k_epoch k) || existsb (fun es => (fst es =? e_epoch e) && (snd es =? e_state e)) (k_past k) in
+  if negb readable || existsb (N.eqb (e_msg e)) (k_seen k) then fail_unprocessable c e rec_epoch else
+  let c := set_core c (with_seen k (e_msg e :: k_seen k)) in
+  let c1 := set_msgs c (aset N.eqb (e_msg e) (mkM MS_PROCESSED (k_epoch k) (e_id e) (e_msg e)) (msgs c)) in
+  let c2 := put_dedup c1 (e_id e) PS_PROCESSED (Some (k_epoch k)) (Some (e_msg e)) in
+  (set_core c2 (upd_last (kc c2) (e_msg e) (e_msg e)), RApp).
+
+Definition leave_here (c : client) (e : event) (rec_epoch : N) : client * rk :=
+  let k := kc c in
+  if existsb (N.eqb (100000 + e_id e)) (k_seen k) then fail_unprocessable c e rec_epoch else
+  let k0 := with_seen (with_props k (k_props k ++ [e_id e])) ((100000 + e_id e) :: k_seen k) in
+  if is_admin c && (match k_pending k with Some _ => true | None => false end) then
+    fail_unprocessable (set_core c k0) e rec_epoch
+  else
+  let k1 := if is_admin c then with_pending k0 (Some (1000 + e_id e * 8 + me c, 0, [e_author e])) else k0 in
+  (put_dedup (set_core c k1) (e_id e) PS_PROCESSED (Some (k_epoch k)) None, if is_admin c then RAuto else RPending).
+
+Definition commit_here (c : client) (e : event) (rec_epoch : N) : client * rk :=
+  let k := kc c in
+  if negb (forallb (fun p => existsb (N.eqb p) (k_props k)) (e_refs e)) then fail_unprocessable c e rec_epoch else
+  if negb (e_auth e) then (record_failure c (e_id e) true (Some rec_epoch), RErr)
+  else apply_commit c e (commit_of e).
+
+Definition here (c : client) (e : event) (rec_epoch : N) : client * rk :=
+  if e_author e =? me c then own_here c e
+  else if e_kind e =? 1 then app_here c e rec_epoch
+  else if e_kind e =? 2 then leave_here c e rec_epoch
+  else commit_here c e rec_epoch.
+
+Definition blocked_rk (e : event) : rk := if (e_kind e =? 3) && ((e_bad e =? 1) || (e_bad e =? 2)) then RPrevFailed else RUnproc.
+
+Lemma process_unfold f c e : process f c e =
+  if blockedb c e then (c, blocked_rk e) else
+  if (e_kind e =? 3) && (e_bad e <? 2) then (record_failure c (e_id e) false None, RErr) else
+  if (e_kind e =? 3) && (e_bad e =? 2) then (record_failure c (e_id e) false None, RErr) else
+  if negb (k_active (kc c)) then (record_failure c (e_id e) true None, RErr) else
+  let c1 := ens c in
+  if (e_kind e =? 3) || negb (outer_opens (kc c1) (e_state e)) then (record_failure c1 (e_id e) true None, RErr) else
+  if wrong_epoch (kc c1) e then
+    if is_better c1 (e_epoch e) (e_ts e) (e_key e) then
+      match find_snap (e_epoch e) (queue c1), f with
+      | Some s, S f' => process f' (rollback c1 (e_epoch e) s) e
+      | _, _ => fail_unprocessable c1 e (k_rec_epoch (kc c))
+      end
+    else late c1 e (k_rec_epoch (kc c))
+  else here c1 e (k_rec_epoch (kc c)).
+Proof. destruct f; reflexivity. Qed.
+
+(* ================================================================ field lemmas *)
+Lemma ensure_secret_fields k :
+  k_cur (ensure_secret k) = k_cur k /\ k_epoch (ensure_secret k) = k_epoch k /\ k_rec_epoch (ensure_secret k) = k_rec_epoch k /\
+  k_active (ensure_secret k) = k_active k /\ k_pending (ensure_secret k) = k_pending k /\ k_props (ensure_secret k) = k_props k /\
+  k_past (ensure_secret k) = k_past k /\ k_data (ensure_secret k) = k_data k /\ k_last (ensure_secret k) = k_last k /\
+  k_seen (ensure_secret k) = k_seen k.
+Proof. unfold ensure_secret. destruct (dget (k_epoch k) (k_secrets k)); repeat split; reflexivity. Qed.
+
+Lemma es_cur k : k_cur (ensure_secret k) = k_cur k. Proof. apply ensure_secret_fields. Qed.
+Lemma es_epoch k : k_epoch (ensure_secret k) = k_epoch k. Proof. apply ensure_secret_fields. Qed.
+Lemma es_rec_epoch k : k_rec_epoch (ensure_secret k) = k_rec_epoch k. Proof. apply ensure_secret_fields. Qed.
+Lemma es_active k : k_active (ensure_secret k) = k_active k. Proof. apply ensure_secret_fields. Qed.
+Lemma es_pending k : k_pending (ensure_secret k) = k_pending k. Proof. apply ensure_secret_fields. Qed.
+Lemma es_props k : k_props (ensure_secret k) = k_props k. Proof. apply ensure_secret_fields. Qed.
+Lemma es_past k : k_past (ensure_secret k) = k_past k. Proof. apply ensure_secret_fields. Qed.
+Lemma es_data k : k_data (ensure_secret k) = k_data k. Proof. apply ensure_secret_fields. Qed.
+Lemma es_last k : k_last (ensure_secret k) = k_last k. Proof. apply ensure_secret_fields. Qed.
+Lemma es_seen k : k_seen (ensure_secret k) = k_seen k. Proof. apply ensure_secret_fields. Qed.
+
+Lemma es_has k : exists s, dget (k_epoch k) (k_secrets (ensure_secret k)) = Some s.
+Proof.
+  unfold ensure_secret. destruct (dget (k_epoch k) (k_secrets k)) as [s|] eqn:E.
+  - exists s. exact E.
+  - exists (k_cur k). cbn [with_secrets k_secrets]. apply dget_aset_same.
+Qed.
+
+Lemma es_fix k s : dget (k_epoch k) (k_secrets k) = Some s -> ensure_secret k = k.
+Proof. intros H. unfold ensure_secret. rewrite H. reflexivity. Qed.
+
+Lemma es_idem k : ensure_secret (ensure_secret k) = ensure_secret k.
+Proof. destruct (es_has k) as [s Hs]. apply (es_fix _ s). rewrite es_epoch. exact Hs. Qed.
+
+Lemma set_core_kc c : set_core c (kc c) = c. Proof. destruct c; reflexivity. Qed.
+Lemma with_rec_epoch_same k : with_rec_epoch k (k_rec_epoch k) = k. Proof. destruct k; reflexivity. Qed.
+
+Lemma ens_idem c : ens (ens c) = ens c.
+Proof. unfold ens. cbn [set_core kc me is_admin retention dedup msgs queue rollbacks]. rewrite es_idem. reflexivity. Qed.
+
+(* ================================================================ C08: the record mirrors the MLS state *)
+Lemma core_ok_ensure k : core_ok k -> core_ok (ensure_secret k).
+Proof. unfold core_ok. rewrite es_active, es_rec_epoch, es_epoch. auto. Qed.
+
+Lemma core_ok_sync k : core_ok (with_rec_epoch k (k_epoch k)).
+Proof. intros _. reflexivity. Qed.
+
+Lemma core_ok_upd_last k a b : core_ok k -> core_ok (upd_last k a b).
+Proof. intros H. unfold upd_last. destruct (match k_last k with None => true | Some l => newer (a, b) l end); [exact H|exact H]. Qed.
+
+Lemma core_ok_advance k cm save ev : core_ok (advance k cm save ev).
+Proof.
+  destruct cm as [[id data] rm]. unfold advance.
+  destruct ev.
+  - rewrite andb_false_r. intros H. cbn in H. discriminate.
+  - rewrite andb_true_r. destruct save; [apply core_ok_ensure|]; intros _; reflexivity.
+Qed.
+
+Lemma Inv_set_core c k : core_ok k -> Inv c -> Inv (set_core c k).
+Proof. intros Hk [_ Hq]. split; [exact Hk|exact Hq]. Qed.
+Lemma Inv_set_dedup c d : Inv c -> Inv (set_dedup c d). Proof. intros H; exact H. Qed.
+Lemma Inv_set_msgs c m : Inv c -> Inv (set_msgs c m). Proof. intros H; exact H. Qed.
+Lemma Inv_record_failure c id g ep : Inv c -> Inv (record_failure c id g ep). Proof. intros H; exact H. Qed.
+Lemma Inv_put_dedup c id st ep m : Inv c -> Inv (put_dedup c id st ep m). Proof. intros H; exact H. Qed.
+Lemma Inv_ens c : Inv c -> Inv (ens c).
+Proof. intros H. apply Inv_set_core; [apply core_ok_ensure; apply H|exact H]. Qed.
+Lemma Inv_sync c : Inv c -> Inv (sync c).
+Proof. intros H. apply Inv_set_core; [apply core_ok_sync|exact H]. Qed.
+
+Lemma Forall_drop_front {A} (P : A -> Prop) n l : Forall P l -> Forall P (drop_front n l).
+Proof.
+  revert l. induction n as [|n IH]; intros l H; cbn [drop_front]; [exact H|].
+  destruct l as [|x r]; [constructor|]. apply IH. inversion H; assumption.
+Qed.
+
+Lemma Forall_prune (P : snap -> Prop) r q : Forall P q -> Forall P (prune r q).
+Proof. intros H. unfold prune. destruct (lenN q <=? r); [exact H|apply Forall_drop_front; exact H]. Qed.
+
+Lemma Forall_take_until (P : snap -> Prop) ep q : Forall P q -> Forall P (take_until ep q).
+Proof.
+  induction q as [|s r IH]; intros H; cbn [take_until]; [constructor|].
+  inversion H as [|? ? Hs Hr]; subst. destruct (sn_epoch s =? ep); [constructor|]. constructor; [exact Hs|exact (IH Hr)].
+Qed.
+
+Lemma find_snap_In ep q s : find_snap ep q = Some s -> In s q /\ sn_epoch s = ep.
+Proof. unfold find_snap. intros H. apply find_some in H. destruct H as [H1 H2]. split; [exact H1|lia]. Qed.
+
+Lemma Inv_rollback c ep s : Inv c -> In s (queue c) -> Inv (rollback c ep s).
+Proof.
+  intros [_ Hq] Hin. split.
+  - change (core_ok (sn_core s)). rewrite Forall_forall in Hq. exact (Hq s Hin).
+  - change (Forall (fun s0 => core_ok (sn_core s0)) (take_until ep (queue c))). apply Forall_take_until. exact Hq.
+Qed.
+
+Lemma Inv_take_snapshot c e : Inv c -> Inv (take_snapshot c e).
+Proof.
+  intros [Hk Hq]. split; [exact Hk|].
+  change (Forall (fun s0 => core_ok (sn_core s0)) (prune (retention c) (queue c ++ [mkSnap (k_epoch (kc c)) (e_key e) (e_ts e) (kc c)]))).
+  apply Forall_prune. apply Forall_app. split; [exact Hq|]. constructor; [exact Hk|constructor].
+Qed.
+
+Lemma Inv_apply_commit c e cm : Inv c -> Inv (fst (apply_commit c e cm)).
+Proof.
+  intros H. unfold apply_commit.
+  destruct (evicted_by c (snd cm)); cbn [fst]; apply Inv_put_dedup; (apply Inv_set_core; [apply core_ok_advance|apply Inv_take_snapshot; exact H]).
+Qed.
+
+Lemma Inv_fail c e r : Inv c -> Inv (fst (fail_unprocessable c e r)).
+Proof. intros H; exact H. Qed.
+
+Lemma Inv_late c e r : Inv c -> Inv (fst (late c e r)).
+Proof.
+  intros H. unfold late. destruct (dget (e_id e) (dedup c)) as [d|]; [|exact H].
+  destruct (d_state d =? PS_COMMIT); [apply Inv_sync; exact H|exact H].
+Qed.
+
+Lemma Inv_own_here c e : Inv c -> Inv (fst (own_here c e)).
+Proof.
+  intros H. unfold own_here.
+  destruct (if e_kind e =? 0 then k_pending (kc c) else None) as [cm|]; [apply Inv_apply_commit; exact H|].
+  destruct (dget (e_id e) (dedup c)) as [r|]; [|exact H].
+  destruct ((d_state r =? PS_CREATED) || (d_state r =? PS_RETRY)).
+  - destruct (d_msg r) as [m|]; [|exact H]. destruct (dget m (msgs c)); exact H.
+  - destruct (d_state r =? PS_COMMIT); [apply Inv_sync; exact H|exact H].
+Qed.
+
+Lemma Inv_app_here c e r : Inv c -> Inv (fst (app_here c e r)).
+Proof.
+  intros H. unfold app_here.
+  destruct (negb _ || existsb (N.eqb (e_msg e)) (k_seen (kc c))); [exact H|].
+  cbn [fst]. apply Inv_set_core; [|exact H].
+  apply core_ok_upd_last. exact (proj1 H).
+Qed.
+
+Lemma Inv_leave_here c e r : Inv c -> Inv (fst (leave_here c e r)).
+Proof.
+  intros H. unfold leave_here.
+  destruct (existsb (N.eqb (100000 + e_id e)) (k_seen (kc c))); [exact H|].
+  destruct (is_admin c && _).
+  - split; [exact (proj1 H)|exact (proj2 H)].
+  - cbn [fst]. split; [|exact (proj2 H)]. destruct (is_admin c); exact (proj1 H).
+Qed.
+
+Lemma Inv_commit_here c e r : Inv c -> Inv (fst (commit_here c e r)).
+Proof.
+  intros H. unfold commit_here.
+  destruct (negb (forallb _ (e_refs e))); [exact H|].
+  destruct (negb (e_auth e)); [exact H|]. apply Inv_apply_commit. exact H.
+Qed.
+
+Lemma Inv_here c e r : Inv c -> Inv (fst (here c e r)).
+Proof.
+  intros H. unfold here.
+  destruct (e_author e =? me c); [apply Inv_own_here; exact H|].
+  destruct (e_kind e =? 1); [apply Inv_app_here; exact H|].
+  destruct (e_kind e =? 2); [apply Inv_leave_here; exact H|apply Inv_commit_here; exact H].
+Qed.
+
+Lemma process_inv fuel : forall c e, Inv c -> Inv (fst (process fuel c e)).
+Proof.
+  induction fuel as [|f IH]; intros c e H; rewrite process_unfold.
+  all: destruct (blockedb c e); [exact H|].
+  all: destruct ((e_kind e =? 3) && (e_bad e <? 2)); [exact H|].
+  all: destruct ((e_kind e =? 3) && (e_bad e =? 2)); [exact H|].
+  all: destruct (negb (k_active (kc c))); [exact H|].
+  all: cbv zeta; pose proof (Inv_ens c H) as H1.
+  all: destruct ((e_kind e =? 3) || negb (outer_opens (kc (ens c)) (e_state e))); [exact H1|].
+  all: destruct (wrong_epoch (kc (ens c)) e); [|apply Inv_here; exact H1].
+  all: destruct (is_better (ens c) (e_epoch e) (e_ts e) (e_key e)); [|apply Inv_late; exact H1].
+  all: destruct (find_snap (e_epoch e) (queue (ens c))) as [s|] eqn:Es; [|exact H1].
+  - exact H1.
+  - apply IH. apply Inv_rollback; [exact H1|]. apply find_snap_In in Es. apply Es.
+Qed.
+
+Lemma inv_init : forall i a r, Inv (init_client i a r).
+Proof. intros i a r. split; [intros _; reflexivity|constructor]. Qed.
+
+Lemma inv_deliver : forall c e, Inv c -> Inv (fst (deliver c e)).
+Proof. intros c e. apply process_inv. Qed.
+
+Lemma inv_merge_pending : forall c, Inv c -> Inv (fst (merge_pending c)).
+Proof.
+  intros c H. unfold merge_pending. destruct (k_pending (kc c)) as [cm|]; [|exact H].
+  cbn [fst]. apply Inv_set_core; [apply core_ok_advance|exact H].
+Qed.
+
+Lemma inv_committed : forall c e, Inv c -> Inv (committed c e).
+Proof.
+  intros c e H. unfold committed. apply Inv_put_dedup. apply Inv_set_core; [|exact H].
+  exact (core_ok_ensure _ (proj1 H)).
+Qed.
+
+Lemma inv_clear : forall c, Inv c -> Inv (clear_pending c).
+Proof. intros c H. unfold clear_pending. apply Inv_set_core; [exact (proj1 H)|exact H]. Qed.
+
+Lemma inv_sent : forall c e, Inv c -> Inv (sent c e).
+Proof.
+  intros c e H. unfold sent. apply Inv_set_core; [|split; [exact (core_ok_ensure _ (proj1 H))|exact (proj2 H)]].
+  apply core_ok_upd_last. exact (core_ok_ensure _ (proj1 H)).
+Qed.
+
+Lemma inv_leave : forall c e, Inv c -> Inv (leave_created c e).
+Proof.
+  intros c e H. unfold leave_created. apply Inv_put_dedup. apply Inv_set_core; [|exact H].
+  exact (core_ok_ensure _ (proj1 H)).
+Qed.
+
+Lemma inv_deliver_all ds : forall c, Inv c -> Inv (deliver_all c ds).
+Proof.
+  induction ds as [|e ds IH]; intros c H; [exact H|].
+  unfold deliver_all. cbn [fold_left]. apply IH. apply inv_deliver. exact H.
+Qed.
+
+Lemma record_mirrors_mls : forall i a r ds, let c := deliver_all (init_client i a r) ds in
+  k_active (kc c) = true -> k_rec_epoch (kc c) = k_epoch (kc c).
+Proof. intros i a r ds c. exact (proj1 (inv_deliver_all ds _ (inv_init i a r))). Qed.
+
+(* ================================================================ C06: a refused event has no effect *)
+Lemma proj_ens c : proj (ens c) = proj c.
+Proof.
+  unfold proj, ens. cbn [set_core kc msgs queue].
+  rewrite es_cur, es_epoch, es_rec_epoch, es_active, es_pending, es_props, es_data, es_last. reflexivity.
+Qed.
+
+Lemma apply_commit_rk c e cm : snd (apply_commit c e cm) = RCommit.
+Proof. unfold apply_commit. destruct (evicted_by c (snd cm)); reflexivity. Qed.
+
+Lemma rb_apply_commit c e cm : rollbacks (fst (apply_commit c e cm)) = rollbacks c.
+Proof. unfold apply_commit. destruct (evicted_by c (snd cm)); reflexivity. Qed.
+
+Lemma rb_late c e r : rollbacks (fst (late c e r)) = rollbacks c.
+Proof.
+  unfold late. destruct (dget (e_id e) (dedup c)) as [d|]; [|reflexivity].
+  destruct (d_state d =? PS_COMMIT); reflexivity.
+Qed.
+
+Lemma rb_here c e r : rollbacks (fst (here c e r)) = rollbacks c.
+Proof.
+  unfold here.
+  destruct (e_author e =? me c).
+  - unfold own_here.
+    destruct (if e_kind e =? 0 then k_pending (kc c) else None) as [cm|]; [apply rb_apply_commit|].
+    destruct (dget (e_id e) (dedup c)) as [d|]; [|reflexivity].
+    destruct ((d_state d =? PS_CREATED) || (d_state d =? PS_RETRY)).
+    + destruct (d_msg d) as [m|]; [|reflexivity]. destruct (dget m (msgs c)); reflexivity.
+    + destruct (d_state d =? PS_COMMIT); reflexivity.
+  - destruct (e_kind e =? 1).
+    + unfold app_here. destruct (negb _ || existsb (N.eqb (e_msg e)) (k_seen (kc c))); reflexivity.
+    + destruct (e_kind e =? 2).
+      * unfold leave_here. destruct (existsb (N.eqb (100000 + e_id e)) (k_seen (kc c))); [reflexivity|].
+        destruct (is_admin c && _); reflexivity.
+      * unfold commit_here. destruct (negb (forallb _ (e_refs e))); [reflexivity|].
+        destruct (negb (e_auth e)); [reflexivity|apply rb_apply_commit].
+Qed.
+
+Lemma process_rb fuel : forall c e, rollbacks c <= rollbacks (fst (process fuel c e)).
+Proof.
+  induction fuel as [|f IH]; intros c e; rewrite process_unfold.
+  all: destruct (blockedb c e); [cbn [fst]; lia|].
+  all: destruct ((e_kind e =? 3) && (e_bad e <? 2)); [cbn [fst record_failure set_dedup rollbacks]; lia|].
+  all: destruct ((e_kind e =? 3) && (e_bad e =? 2)); [cbn [fst record_failure set_dedup rollbacks]; lia|].
+  all: destruct (negb (k_active (kc c))); [cbn [fst record_failure set_dedup rollbacks]; lia|].
+  all: cbv zeta.
+  all: destruct ((e_kind e =? 3) || negb (outer_opens (kc (ens c)) (e_state e))); [cbn [fst record_failure set_dedup rollbacks ens set_core]; lia|].
+  all: destruct (wrong_epoch (kc (ens c)) e); [|rewrite rb_here; cbn [ens set_core rollbacks]; lia].
+  all: destruct (is_better (ens c) (e_epoch e) (e_ts e) (e_key e)); [|rewrite rb_late; cbn [ens set_core rollbacks]; lia].
+  all: destruct (find_snap (e_epoch e) (queue (ens c))) as [s|] eqn:Es; [|cbn [fst fail_unprocessable record_failure set_dedup rollbacks ens set_core]; lia].
+  - cbn [fst fail_unprocessable record_failure set_dedup rollbacks ens set_core]; lia.
+  - specialize (IH (rollback (ens c) (e_epoch e) s) e).
+    assert (rollbacks (rollback (ens c) (e_epoch e) s) = rollbacks c + 1) as E by reflexivity. lia.
+Qed.
+
+Lemma late_refused_frame c e r : refused (snd (late c e r)) = true -> proj (fst (late c e r)) = proj c.
+Proof.
+  unfold late. destruct (dget (e_id e) (dedup c)) as [d|]; [|reflexivity].
+  destruct (d_state d =? PS_COMMIT); [discriminate|reflexivity].
+Qed.
+
+Lemma here_refused_frame c e r :
+  refused (snd (here c e r)) = true ->
+  ~ (e_kind e = 2 /\ is_admin c = true /\ k_pending (kc c) <> None) ->
+  proj (fst (here c e r)) = proj c.
+Proof.
+  unfold here. intros Href Hlv.
+  destruct (e_author e =? me c).
+  - revert Href. unfold own_here.
+    destruct (if e_kind e =? 0 then k_pending (kc c) else None) as [cm|]; [rewrite apply_commit_rk; discriminate|].
+    destruct (dget (e_id e) (dedup c)) as [d|]; [|reflexivity].
+    destruct ((d_state d =? PS_CREATED) || (d_state d =? PS_RETRY)).
+    + destruct (d_msg d) as [m|]; [|reflexivity]. destruct (dget m (msgs c)); [discriminate|reflexivity].
+    + destruct (d_state d =? PS_COMMIT); [discriminate|reflexivity].
+  - destruct (N.eqb_spec (e_kind e) 1) as [K1|K1].
+    + revert Href. unfold app_here. destruct (negb _ || existsb (N.eqb (e_msg e)) (k_seen (kc c))); [reflexivity|discriminate].
+    + destruct (N.eqb_spec (e_kind e) 2) as [K2|K2].
+      * revert Href. unfold leave_here. destruct (existsb (N.eqb (100000 + e_id e)) (k_seen (kc c))); [reflexivity|].
+        destruct (is_admin c) eqn:Ea; cbn [andb].
+        -- destruct (k_pending (kc c)) as [p|] eqn:Ep; [|discriminate].
+           exfalso. apply Hlv. repeat split; [exact K2|discriminate].
+        -- discriminate.
+      * revert Href. unfold commit_here. destruct (negb (forallb _ (e_refs e))); [reflexivity|].
+        destruct (negb (e_auth e)); [reflexivity|]. rewrite apply_commit_rk. discriminate.
+Qed.
+
+Lemma refusal_frame : forall c e,
+  refused (snd (deliver c e)) = true ->
+  ~ (rollbacks (fst (deliver c e)) <> rollbacks c) ->
+  ~ (e_kind e = 2 /\ is_admin c = true /\ k_pending (kc c) <> None) ->
+  proj (fst (deliver c e)) = proj c.
+Proof.
+  intros c e. unfold deliver. rewrite process_unfold. intros Href Hrb Hlv. revert Href Hrb.
+  destruct (blockedb c e); [reflexivity|].
+  destruct ((e_kind e =? 3) && (e_bad e <? 2)); [reflexivity|].
+  destruct ((e_kind e =? 3) && (e_bad e =? 2)); [reflexivity|].
+  destruct (negb (k_active (kc c))); [reflexivity|].
+  cbv zeta.
+  destruct ((e_kind e =? 3) || negb (outer_opens (kc (ens c)) (e_state e))); [intros _ _; exact (proj_ens c)|].
+  destruct (wrong_epoch (kc (ens c)) e).
+  - destruct (is_better (ens c) (e_epoch e) (e_ts e) (e_key e)).
+    + destruct (find_snap (e_epoch e) (queue (ens c))) as [s|]; [|intros _ _; exact (proj_ens c)].
+      intros _ Hrb. exfalso. apply Hrb.
+      pose proof (process_rb 1 (rollback (ens c) (e_epoch e) s) e) as H.
+      assert (rollbacks (rollback (ens c) (e_epoch e) s) = rollbacks c + 1) as E by reflexivity. lia.
+    + intros Href _. rewrite (late_refused_frame _ _ _ Href). apply proj_ens.
+  - intros Href _. rewrite (here_refused_frame _ _ _ Href); [apply proj_ens|].
+    intros (K2 & Ha & Hp). apply Hlv. repeat split; [exact K2|exact Ha|].
+    cbn [ens set_core kc] in Hp. rewrite es_pending in Hp. exact Hp.
+Qed.
+
+Lemma deliver_total : forall c e, exists c' r, deliver c e = (c', r).
+Proof. intros c e. destruct (deliver c e) as [c' r]. exists c', r. reflexivity. Qed.
+
+(* ---------------------------------------------------------------- concrete witnesses (closed by computation) *)
+Definition cmt (id ts key author st ep : N) (auth : bool) : event := mkEvent id 0 ts key author st ep auth 0 0 [] [] 0.
+Definition w_c0 : client := init_client 1 false 5.
+Definition w_A : event := cmt 10 100 5 2 0 1 true.          (* first commit on the initial state *)
+Definition w_B : event := cmt 20 50 5 3 0 1 true.           (* MIP-03-better competitor of w_A *)
+Definition w_Bbad : event := cmt 20 50 5 3 0 1 false.       (* the same, but not authorised *)
+Definition w_own : event := cmt 10 100 5 1 0 1 true.        (* client 1's own commit on the initial state *)
+Definition w_leave : event := mkEvent 30 2 100 5 2 0 1 true 0 0 [] [] 0.
+Definition w_msg : event := mkEvent 30 1 100 5 2 0 1 true 0 7 [] [] 0.
+Definition w_e2 : event := cmt 20 100 5 2 11 2 true.        (* successor of w_A *)
+
+Lemma fork_ready_init i a r : 1 <= r -> fork_ready (init_client i a r).
+Proof.
+  intros Hr. unfold fork_ready, init_client, init_core. cbn [kc k_active k_pending retention k_rec_epoch k_epoch queue k_secrets k_cur aget].
+  repeat split; try assumption; try reflexivity; [intros s []|intros x H; discriminate].
+Qed.
+
+Lemma rollback_then_refused_witness : exists c e,
+  rollbacks (fst (deliver c e)) <> rollbacks c /\ refused (snd (deliver c e)) = true /\ proj (fst (deliver c e)) <> proj c.
+Proof. exists (fst (deliver w_c0 w_A)), w_Bbad. vm_compute. repeat split; discriminate. Qed.
+
+Lemma leave_to_pending_admin_witness : exists c e,
+  (e_kind e = 2 /\ is_admin c = true /\ k_pending (kc c) <> None) /\ refused (snd (deliver c e)) = true /\ proj (fst (deliver c e)) <> proj c.
+Proof. exists (committed (init_client 1 true 5) w_own), w_leave. vm_compute. repeat split; discriminate. Qed.
+
+Lemma late_message_refuted : exists c msg worse better,
+  fork_ready c /\ e_state msg = k_cur (kc c) /\
+  let c' := deliver_all c [worse; msg; better; msg] in
+  k_cur (kc c') = e_id better + 1 /\
+  exists mr, aget N.eqb (e_msg msg) (msgs c') = Some mr /\ m_state mr = MS_INVALID.
+Proof.
+  exists w_c0, w_msg, w_A, w_B. split; [apply fork_ready_init; lia|]. split; [reflexivity|].
+  cbv zeta. split; [vm_compute; reflexivity|].
+  exists (mkM MS_INVALID 2 30 7). split; vm_compute; reflexivity.
+Qed.
+
+Lemma immediate_merge_refuted : exists c own better,
+  fork_ready c /\ mip03_lt (ev_key better) (ev_key own) /\
+  let c1 := fst (merge_pending (committed c own)) in
+  k_cur (kc (deliver_all c1 [better; better])) = e_id own + 1.
+Proof.
+  exists (init_client 1 true 5), w_own, w_B. split; [apply fork_ready_init; lia|].
+  split; [left; vm_compute; reflexivity|]. vm_compute. reflexivity.
+Qed.
+
+Lemma ahead_of_predecessor_refuted : exists c e1 e2,
+  fork_ready c /\ e_state e2 = e_id e1 + 1 /\
+  k_cur (kc (deliver_all c [e2; e1; e2])) = e_id e1 + 1 /\ snd (deliver (deliver_all c [e2; e1]) e2) = RUnproc.
+Proof.
+  exists w_c0, w_A, w_e2. split; [apply fork_ready_init; lia|]. repeat split; vm_compute; reflexivity.
+Qed.
+
+(* ================================================================ C01: the MIP-03 order *)
+Lemma mip03_lt_irrefl : forall a, ~ mip03_lt a a.
+Proof. intros a. unfold mip03_lt. lia. Qed.
+Lemma mip03_lt_trans : forall a b c, mip03_lt a b -> mip03_lt b c -> mip03_lt a c.
+Proof. intros a b c. unfold mip03_lt. lia. Qed.
+Lemma mip03_lt_total : forall a b, a <> b -> mip03_lt a b \/ mip03_lt b a.
+Proof.
+  intros [a1 a2] [b1 b2] Hne. unfold mip03_lt. cbn [fst snd].
+  assert (a1 <> b1 \/ a2 <> b2) as H by (destruct (N.eq_dec a1 b1) as [->|]; [right; congruence|left; assumption]). lia.
+Qed.
+
+Lemma lt_bool_spec ts key ts' key' :
+  (ts <? ts') || ((ts =? ts') && (key <? key')) = true <-> mip03_lt (ts, key) (ts', key').
+Proof. unfold mip03_lt. cbn [fst snd]. lia. Qed.
+
+Lemma is_better_spec : forall c ep ts key,
+  is_better c ep ts key = true <->
+  exists s, find_snap ep (queue c) = Some s /\ sn_ts s <> 0 /\ mip03_lt (ts, key) (sn_ts s, sn_key s).
+Proof.
+  intros c ep ts key. unfold is_better. destruct (find_snap ep (queue c)) as [s|].
+  - destruct (N.eqb_spec (sn_ts s) 0) as [E|E].
+    + split; [discriminate|]. intros (s' & [= <-] & H & _). contradiction.
+    + rewrite lt_bool_spec. split.
+      * intros H. exists s. auto.
+      * intros (s' & [= <-] & _ & H). exact H.
+  - split; [discriminate|]. intros (s' & H & _). discriminate.
+Qed.
+
+Lemma same_commit_not_better : forall c e s,
+  find_snap (e_epoch e) (queue c) = Some s -> sn_ts s = e_ts e -> sn_key s = e_key e ->
+  is_better c (e_epoch e) (e_ts e) (e_key e) = false.
+Proof.
+  intros c e s Hs Hts Hkey. destruct (is_better c (e_epoch e) (e_ts e) (e_key e)) eqn:E; [|reflexivity].
+  apply is_better_spec in E. destruct E as (s' & Hs' & _ & Hlt). rewrite Hs in Hs'. injection Hs' as <-.
+  rewrite Hts, Hkey in Hlt. exfalso. exact (mip03_lt_irrefl _ Hlt).
+Qed.
+
+(* ================================================================ C02: application messages *)
+Lemma rollback_invalidates_later : forall c ep s m mr,
+  aget N.eqb m (msgs (rollback c ep s)) = Some mr -> ep < m_epoch mr -> m_state mr = MS_INVALID.
+Proof.
+  intros c ep s m mr H Hlt.
+  change (msgs (rollback c ep s)) with
+    (map (fun kv : N * mrec => if ep <? m_epoch (snd kv) then (fst kv, mkM MS_INVALID (m_epoch (snd kv)) (m_wrapper (snd kv)) (m_created (snd kv))) else kv) (msgs c)) in H.
+  apply dget_map_inv in H.
+  - destruct H as (mr0 & _ & H). cbn [fst snd] in H.
+    destruct (N.ltb_spec ep (m_epoch mr0)) as [L|L].
+    + injection H as <-. reflexivity.
+    + injection H as <-. lia.
+  - intros kv. destruct (ep <? m_epoch (snd kv)); reflexivity.
+Qed.
+
+Lemma own_echo_confirms : forall c e m mr,
+  e_kind e = 1 -> e_author e = me c -> Inv c -> k_active (kc c) = true ->
+  aget N.eqb (e_id e) (dedup c) = Some (mkD PS_CREATED (Some (k_epoch (kc c))) true (Some m)) ->
+  aget N.eqb m (msgs c) = Some mr -> e_epoch e = k_epoch (kc c) -> outer_opens (ensure_secret (kc c)) (e_state e) = true ->
+  snd (deliver c e) = RApp /\
+  exists mr', aget N.eqb m (msgs (fst (deliver c e))) = Some mr' /\ m_state mr' = MS_PROCESSED.
+Proof.
+  intros c e m mr K1 Hme _ Hact Hd Hm Hep Hopen.
+  unfold deliver. rewrite process_unfold. unfold blockedb. rewrite Hd. cbn [d_state].
+  change ((PS_CREATED =? PS_FAILED) || (PS_CREATED =? PS_INVALID)) with false. cbv iota.
+  rewrite K1. change (1 =? 3) with false. cbn [andb orb]. rewrite Hact. cbn [negb]. cbv zeta.
+  change (kc (ens c)) with (ensure_secret (kc c)). rewrite Hopen. cbn [negb].
+  unfold wrong_epoch. rewrite K1. change (1 =? 1) with true. cbv iota. rewrite es_epoch, Hep, N.ltb_irrefl.
+  unfold here. change (me (ens c)) with (me c). rewrite Hme, N.eqb_refl.
+  unfold own_here. rewrite K1. change (1 =? 0) with false. cbv iota.
+  change (dedup (ens c)) with (dedup c). rewrite Hd. cbn [d_state d_msg d_epoch].
+  change ((PS_CREATED =? PS_CREATED) || (PS_CREATED =? PS_RETRY)) with true. cbv iota.
+  change (msgs (ens c)) with (msgs c). rewrite Hm. split; [reflexivity|].
+  cbn [fst put_dedup set_dedup set_msgs msgs]. eexists. split; [apply dget_aset_same|reflexivity].
+Qed.
+
+Lemma rk_apply_commit_not_app c e cm : snd (apply_commit c e cm) <> RApp.
+Proof. rewrite apply_commit_rk. discriminate. Qed.
+
+Lemma app_stored_once_fuel fuel : forall c e,
+  snd (process fuel c e) = RApp -> e_author e <> me c -> NoDup (map fst (msgs c)) ->
+  let c' := fst (process fuel c e) in
+  exists mr, aget N.eqb (e_msg e) (msgs c') = Some mr /\ m_state mr = MS_PROCESSED /\
+  length (filter (fun kv => fst kv =? e_msg e) (msgs c')) = 1%nat.
+Proof.
+  induction fuel as [|f IH]; intros c e; rewrite process_unfold; intros Hrk Hme Hnd; revert Hrk.
+  all: destruct (blockedb c e); [unfold blocked_rk; destruct (_ && _); discriminate|].
+  all: destruct ((e_kind e =? 3) && (e_bad e <? 2)); [discriminate|].
+  all: destruct ((e_kind e =? 3) && (e_bad e =? 2)); [discriminate|].
+  all: destruct (negb (k_active (kc c))); [discriminate|].
+  all: cbv zeta.
+  all: destruct ((e_kind e =? 3) || negb (outer_opens (kc (ens c)) (e_state e))); [discriminate|].
+  all: assert (Hhere : snd (here (ens c) e (k_rec_epoch (kc c))) = RApp ->
+      exists mr, aget N.eqb (e_msg e) (msgs (fst (here (ens c) e (k_rec_epoch (kc c))))) = Some mr /\ m_state mr = MS_PROCESSED /\
+      length (filter (fun kv => fst kv =? e_msg e) (msgs (fst (here (ens c) e (k_rec_epoch (kc c)))))) = 1%nat).
+  1,3: unfold here; change (me (ens c)) with (me c);
+       (destruct (N.eqb_spec (e_author e) (me c)) as [E|_]; [contradiction|]);
+       (destruct (e_kind e =? 1);
+        [unfold app_here; destruct (negb _ || existsb (N.eqb (e_msg e)) (k_seen (kc (ens c)))); [discriminate|]; intros _;
+         cbn [fst set_core put_dedup set_dedup set_msgs msgs ens];
+         eexists; split; [apply dget_aset_same|split; [reflexivity|apply aset_filter_one; exact Hnd]]
+        |]);
+       (destruct (e_kind e =? 2);
+        [unfold leave_here; destruct (existsb _ _); [discriminate|]; destruct (is_admin (ens c) && _); [discriminate|];
+         destruct (is_admin (ens c)); discriminate|]);
+       unfold commit_here; (destruct (negb (forallb _ (e_refs e))); [discriminate|]);
+       (destruct (negb (e_auth e)); [discriminate|]); rewrite apply_commit_rk; discriminate.
+  all: destruct (wrong_epoch (kc (ens c)) e); [|exact Hhere].
+  all: destruct (is_better (ens c) (e_epoch e) (e_ts e) (e_key e));
+       [|unfold late; destruct (dget (e_id e) (dedup (ens c))) as [d|]; [destruct (d_state d =? PS_COMMIT)|]; discriminate].
+  all: destruct (find_snap (e_epoch e) (queue (ens c))) as [s|] eqn:Es; [|discriminate].
+  - discriminate.
+  - intros Hrk. apply IH; [exact Hrk|exact Hme|].
+    change (msgs (rollback (ens c) (e_epoch e) s)) with
+      (map (fun kv : N * mrec => if e_epoch e <? m_epoch (snd kv) then (fst kv, mkM MS_INVALID (m_epoch (snd kv)) (m_wrapper (snd kv)) (m_created (snd kv))) else kv) (msgs c)).
+    rewrite map_keys_same; [exact Hnd|]. intros kv. destruct (e_epoch e <? m_epoch (snd kv)); reflexivity.
+Qed.
+
+Lemma app_stored_once : forall c e,
+  snd (deliver c e) = RApp -> e_author e <> me c -> NoDup (map fst (msgs c)) ->
+  let c' := fst (deliver c e) in
+  exists mr, aget N.eqb (e_msg e) (msgs c') = Some mr /\ m_state mr = MS_PROCESSED /\
+  length (filter (fun kv => fst kv =? e_msg e) (msgs c')) = 1%nat.
+Proof. intros c e. apply app_stored_once_fuel. Qed.
+
+(* ================================================================ C07: re-delivery *)
+Lemma nodup_msgs_apply_commit c e cm : msgs (fst (apply_commit c e cm)) = msgs c.
+Proof. unfold apply_commit. destruct (evicted_by c (snd cm)); reflexivity. Qed.
+
+Lemma nodup_msgs_here c e r : NoDup (map fst (msgs c)) -> NoDup (map fst (msgs (fst (here c e r)))).
+Proof.
+  intros Hnd. unfold here.
+  destruct (e_author e =? me c).
+  - unfold own_here.
+    destruct (if e_kind e =? 0 then k_pending (kc c) else None) as [cm|]; [rewrite nodup_msgs_apply_commit; exact Hnd|].
+    destruct (dget (e_id e) (dedup c)) as [d|]; [|exact Hnd].
+    destruct ((d_state d =? PS_CREATED) || (d_state d =? PS_RETRY)).
+    + destruct (d_msg d) as [m|]; [|exact Hnd]. destruct (dget m (msgs c)); [|exact Hnd].
+      cbn [fst put_dedup set_dedup set_msgs msgs]. apply aset_nodup. exact Hnd.
+    + destruct (d_state d =? PS_COMMIT); exact Hnd.
+  - destruct (e_kind e =? 1).
+    + unfold app_here. destruct (negb _ || existsb (N.eqb (e_msg e)) (k_seen (kc c))); [exact Hnd|].
+      cbn [fst set_core put_dedup set_dedup set_msgs msgs]. apply aset_nodup. exact Hnd.
+    + destruct (e_kind e =? 2).
+      * unfold leave_here. destruct (existsb (N.eqb (100000 + e_id e)) (k_seen (kc c))); [exact Hnd|].
+        destruct (is_admin c && _); exact Hnd.
+      * unfold commit_here. destruct (negb (forallb _ (e_refs e))); [exact Hnd|].
+        destruct (negb (e_auth e)); [exact Hnd|]. rewrite nodup_msgs_apply_commit. exact Hnd.
+Qed.
+
+Lemma no_second_copy_fuel fuel : forall c e, NoDup (map fst (msgs c)) -> NoDup (map fst (msgs (fst (process fuel c e)))).
+Proof.
+  induction fuel as [|f IH]; intros c e Hnd; rewrite process_unfold.
+  all: destruct (blockedb c e); [exact Hnd|].
+  all: destruct ((e_kind e =? 3) && (e_bad e <? 2)); [exact Hnd|].
+  all: destruct ((e_kind e =? 3) && (e_bad e =? 2)); [exact Hnd|].
+  all: destruct (negb (k_active (kc c))); [exact Hnd|].
+  all: cbv zeta.
+  all: destruct ((e_kind e =? 3) || negb (outer_opens (kc (ens c)) (e_state e))); [exact Hnd|].
+  all: destruct (wrong_epoch (kc (ens c)) e); [|apply nodup_msgs_here; exact Hnd].
+  all: destruct (is_better (ens c) (e_epoch e) (e_ts e) (e_key e));
+       [|unfold late; destruct (dget (e_id e) (dedup (ens c))) as [d|]; [destruct (d_state d =? PS_COMMIT)|]; exact Hnd].
+  all: destruct (find_snap (e_epoch e) (queue (ens c))) as [s|] eqn:Es; [|exact Hnd].
+  - exact Hnd.
+  - apply IH.
+    change (msgs (rollback (ens c) (e_epoch e) s)) with
+      (map (fun kv : N * mrec => if e_epoch e <? m_epoch (snd kv) then (fst kv, mkM MS_INVALID (m_epoch (snd kv)) (m_wrapper (snd kv)) (m_created (snd kv))) else kv) (msgs c)).
+    rewrite map_keys_same; [exact Hnd|]. intros kv. destruct (e_epoch e <? m_epoch (snd kv)); reflexivity.
+Qed.
+
+Lemma no_second_copy : forall c e, NoDup (map fst (msgs c)) -> NoDup (map fst (msgs (fst (deliver c e)))).
+Proof. intros c e. apply no_second_copy_fuel. Qed.
+
+(* ---- stored secrets *)
+Definition has_secret (k : core) : Prop := exists s, dget (k_epoch k) (k_secrets k) = Some s.
+
+Lemma has_secret_es k : has_secret (ensure_secret k).
+Proof. unfold has_secret. rewrite es_epoch. apply es_has. Qed.
+Lemma has_secret_fix k : has_secret k -> ensure_secret k = k.
+Proof. intros [s Hs]. exact (es_fix k s Hs). Qed.
+Lemma has_secret_ens c : has_secret (kc c) -> ens c = c.
+Proof. intros H. unfold ens. rewrite (has_secret_fix _ H). apply set_core_kc. Qed.
+Lemma has_secret_same k k' : k_epoch k' = k_epoch k -> k_secrets k' = k_secrets k -> has_secret k -> has_secret k'.
+Proof. intros E1 E2 [s Hs]. exists s. rewrite E1, E2. exact Hs. Qed.
+
+Lemma upd_last_fields k a b :
+  k_cur (upd_last k a b) = k_cur k /\ k_epoch (upd_last k a b) = k_epoch k /\ k_rec_epoch (upd_last k a b) = k_rec_epoch k /\
+  k_active (upd_last k a b) = k_active k /\ k_pending (upd_last k a b) = k_pending k /\ k_props (upd_last k a b) = k_props k /\
+  k_secrets (upd_last k a b) = k_secrets k /\ k_past (upd_last k a b) = k_past k /\ k_data (upd_last k a b) = k_data k /\
+  k_seen (upd_last k a b) = k_seen k.
+Proof. unfold upd_last. destruct (match k_last k with None => true | Some l => newer (a, b) l end); repeat split; reflexivity. Qed.
+
+Lemma advance_fields k id data rm save :
+  k_cur (advance k (id, data, rm) save false) = id + 1 /\
+  k_epoch (advance k (id, data, rm) save false) = k_epoch k + 1 /\
+  k_rec_epoch (advance k (id, data, rm) save false) = k_epoch k + 1 /\
+  k_active (advance k (id, data, rm) save false) = k_active k.
+Proof.
+  unfold advance. cbn [negb]. rewrite andb_true_r.
+  destruct save; rewrite ?es_cur, ?es_epoch, ?es_rec_epoch, ?es_active; repeat split; reflexivity.
+Qed.
+
+Lemma advance_evicted_inactive k cm save : k_active (advance k cm save true) = false.
+Proof. destruct cm as [[id data] rm]. unfold advance. rewrite andb_false_r. reflexivity. Qed.
+
+Lemma has_secret_advance k cm : has_secret (advance k cm true false).
+Proof. destruct cm as [[id data] rm]. unfold advance. cbn [negb andb]. apply has_secret_es. Qed.
+
+(* ---- snapshot queue facts *)
+Lemma drop_front_In {A} n (l : list A) x : In x (drop_front n l) -> In x l.
+Proof.
+  revert l. induction n as [|n IH]; intros l H; cbn [drop_front] in H; [exact H|].
+  destruct l as [|y r]; [destruct H|]. right. exact (IH r H).
+Qed.
+
+Lemma drop_front_app_last {A} n (q : list A) s :
+  ((n <= length q)%nat -> drop_front n (q ++ [s]) = drop_front n q ++ [s]) /\
+  ((length q < n)%nat -> drop_front n (q ++ [s]) = []).
+Proof.
+  revert q. induction n as [|n IH]; intros q; cbn [drop_front].
+  - split; [reflexivity|lia].
+  - destruct q as [|y r]; cbn [app length].
+    + split; [lia|]. intros _. destruct n; reflexivity.
+    + destruct (IH r) as [H1 H2]. split; intros H; [apply H1|apply H2]; lia.
+Qed.
+
+Lemma prune_app_last r q s :
+  (prune r (q ++ [s]) = [] /\ r = 0) \/
+  (exists q2, prune r (q ++ [s]) = q2 ++ [s] /\ (forall x, In x q2 -> In x q)).
+Proof.
+  unfold prune. destruct (N.leb_spec (lenN (q ++ [s])) r) as [L|L].
+  - right. exists q. split; [reflexivity|auto].
+  - rewrite lenN_app in *. change (lenN [s]) with 1 in *. unfold lenN in *.
+    destruct (drop_front_app_last (N.to_nat (N.of_nat (length q) + 1 - r)) q s) as [H1 H2].
+    destruct (N.eq_dec r 0) as [R|R].
+    + left. split; [apply H2; lia|exact R].
+    + right. exists (drop_front (N.to_nat (N.of_nat (length q) + 1 - r)) q). split; [apply H1; lia|].
+      intros x. apply drop_front_In.
+Qed.
+
+Lemma find_snap_app_none ep q l : (forall x, In x q -> sn_epoch x <> ep) -> find_snap ep (q ++ l) = find_snap ep l.
+Proof.
+  intros H. induction q as [|y r IH]; [reflexivity|]. unfold find_snap in *. cbn [app find].
+  destruct (N.eqb_spec (sn_epoch y) ep) as [E|_]; [exfalso; exact (H y (or_introl eq_refl) E)|].
+  apply IH. intros x Hx. apply H. right. exact Hx.
+Qed.
+
+Lemma take_until_no ep q : forall x, In x (take_until ep q) -> sn_epoch x <> ep.
+Proof.
+  induction q as [|y r IH]; cbn [take_until]; [intros x []|].
+  destruct (N.eqb_spec (sn_epoch y) ep) as [E|E]; [intros x []|].
+  intros x [<-|Hx]; [exact E|exact (IH x Hx)].
+Qed.
+
+Lemma take_until_app_last ep q s : (forall x, In x q -> sn_epoch x <> ep) -> sn_epoch s = ep -> take_until ep (q ++ [s]) = q.
+Proof.
+  intros H Hs. induction q as [|y r IH]; cbn [app take_until].
+  - rewrite Hs, N.eqb_refl. reflexivity.
+  - destruct (N.eqb_spec (sn_epoch y) ep) as [E|_]; [exfalso; exact (H y (or_introl eq_refl) E)|].
+    f_equal. apply IH. intros x Hx. apply H. right. exact Hx.
+Qed.
+
+Lemma is_better_new_snapshot c' e r q k :
+  queue c' = prune r (q ++ [mkSnap (e_epoch e) (e_key e) (e_ts e) k]) ->
+  (forall x, In x q -> sn_epoch x <> e_epoch e) ->
+  is_better c' (e_epoch e) (e_ts e) (e_key e) = false.
+Proof.
+  intros Hq Hno.
+  destruct (prune_app_last r q (mkSnap (e_epoch e) (e_key e) (e_ts e) k)) as [[E _]|(q2 & E & Hsub)].
+  - unfold is_better. rewrite Hq, E. reflexivity.
+  - apply (same_commit_not_better c' e (mkSnap (e_epoch e) (e_key e) (e_ts e) k)); [|reflexivity|reflexivity].
+    rewrite Hq, E. rewrite find_snap_app_none; [|intros x Hx; apply Hno; apply Hsub; exact Hx].
+    unfold find_snap. cbn [find sn_epoch]. rewrite N.eqb_refl. reflexivity.
+Qed.
+
+(* ---- settled states: handling the event again changes nothing observable, and then nothing at all *)
+Definition Fixed (e : event) (c : client) : Prop := fst (deliver c e) = c.
+Definition Settled (e : event) (c : client) : Prop :=
+  Fixed e c \/ exists c0 g ep, fst (deliver c e) = record_failure c0 (e_id e) g ep /\ proj c0 = proj c.
+
+Lemma blockedb_rf c e g ep : blockedb (record_failure c (e_id e) g ep) e = true.
+Proof. unfold blockedb, record_failure. cbn [set_dedup dedup]. rewrite dget_aset_same. reflexivity. Qed.
+
+Lemma fixed_blocked e c : blockedb c e = true -> Fixed e c.
+Proof. intros H. unfold Fixed, deliver. rewrite process_unfold, H. reflexivity. Qed.
+
+Lemma settled_rf e c g ep : Settled e (record_failure c (e_id e) g ep).
+Proof. left. apply fixed_blocked. apply blockedb_rf. Qed.
+
+Lemma settled_step e c : Settled e c -> proj (fst (deliver c e)) = proj c /\ Fixed e (fst (deliver c e)).
+Proof.
+  intros [H|(c0 & g & ep & E & P)].
+  - unfold Fixed in *. rewrite H. split; [reflexivity|exact H].
+  - rewrite E. split; [exact P|]. apply fixed_blocked. apply blockedb_rf.
+Qed.
+
+Lemma fixed_all e c n : Fixed e c -> deliver_all c (repeat e n) = c.
+Proof.
+  intros H. induction n as [|n IH]; [reflexivity|].
+  unfold deliver_all in *. cbn [repeat fold_left]. rewrite H. exact IH.
+Qed.
+
+Definition tail (f : nat) (c : client) (e : event) : client * rk :=
+  if wrong_epoch (kc c) e then
+    if is_better c (e_epoch e) (e_ts e) (e_key e) then
+      match find_snap (e_epoch e) (queue c), f with
+      | Some s, S f' => process f' (rollback c (e_epoch e) s) e
+      | _, _ => fail_unprocessable c e (k_rec_epoch (kc c))
+      end
+    else late c e (k_rec_epoch (kc c))
+  else here c e (k_rec_epoch (kc c)).
+
+Lemma gates f c e : blockedb c e = false -> e_kind e <> 3 -> has_secret (kc c) ->
+  (exists c0 g ep, process f c e = (record_failure c0 (e_id e) g ep, RErr) /\ proj c0 = proj c) \/
+  process f c e = tail f c e.
+Proof.
+  intros Hb Hk Hs. rewrite process_unfold, Hb.
+  destruct (N.eqb_spec (e_kind e) 3) as [E|_]; [contradiction|]. cbn [andb orb].
+  destruct (k_active (kc c)); cbn [negb]; [|left; exists c, true, None; split; reflexivity].
+  cbv zeta. rewrite (has_secret_ens c Hs).
+  destruct (outer_opens (kc c) (e_state e)); cbn [negb]; [right; reflexivity|].
+  left; exists c, true, None; split; reflexivity.
+Qed.
+
+(* a client that passes the gates and whose tail is a fixed point or a plain refusal is settled *)
+Lemma settled_via_tail e c : blockedb c e = false -> e_kind e <> 3 -> has_secret (kc c) ->
+  (fst (tail 2 c e) = c \/ exists c0 g ep, fst (tail 2 c e) = record_failure c0 (e_id e) g ep /\ proj c0 = proj c) ->
+  Settled e c.
+Proof.
+  intros Hb Hk Hs Ht. unfold Settled, Fixed, deliver.
+  destruct (gates 2 c e Hb Hk Hs) as [(c0 & g & ep & E & P)|E]; rewrite E.
+  - right. exists c0, g, ep. split; [reflexivity|exact P].
+  - exact Ht.
+Qed.
+
+Lemma wrong_epoch_ext k k' e : k_epoch k' = k_epoch k -> wrong_epoch k' e = wrong_epoch k e.
+Proof. intros E. unfold wrong_epoch. rewrite E. reflexivity. Qed.
+
+Lemma wrong_epoch_false_eq k e : e_kind e <> 1 -> wrong_epoch k e = false -> e_epoch e = k_epoch k.
+Proof.
+  unfold wrong_epoch. intros K1. destruct (N.eqb_spec (e_kind e) 1) as [E|_]; [contradiction|].
+  destruct (N.eqb_spec (e_epoch e) (k_epoch k)) as [E|_]; [auto|discriminate].
+Qed.
+
+Lemma blockedb_put c e st ep m : st <> PS_FAILED -> st <> PS_INVALID -> blockedb (put_dedup c (e_id e) st ep m) e = false.
+Proof.
+  intros H1 H2. unfold blockedb, put_dedup. cbn [set_dedup dedup]. rewrite dget_aset_same. cbn [d_state].
+  destruct (N.eqb_spec st PS_FAILED) as [E|_]; [contradiction|]. destruct (N.eqb_spec st PS_INVALID) as [E|_]; [contradiction|]. reflexivity.
+Qed.
+
+Lemma sync_fix c : k_rec_epoch (kc c) = k_epoch (kc c) -> sync c = c.
+Proof. intros H. unfold sync. rewrite <- H, with_rec_epoch_same. apply set_core_kc. Qed.
+
+Lemma dedup_put c id st ep m : dedup (put_dedup c id st ep m) = aset N.eqb id (mkD st ep true m) (dedup c).
+Proof. reflexivity. Qed.
+
+Lemma settled_apply_commit c e cm :
+  e_kind e <> 1 -> e_kind e <> 3 -> wrong_epoch (kc c) e = false ->
+  (forall s, In s (queue c) -> sn_epoch s <> e_epoch e) ->
+  Settled e (fst (apply_commit c e cm)).
+Proof.
+  intros K1 K3 Hw Hq. pose proof (wrong_epoch_false_eq _ _ K1 Hw) as Hep.
+  destruct cm as [[id data] rm]. unfold apply_commit. cbn [snd]. destruct (evicted_by c rm); cbn [fst].
+  - right. unfold deliver. rewrite process_unfold.
+    rewrite blockedb_put by discriminate.
+    destruct (N.eqb_spec (e_kind e) 3) as [E|_]; [contradiction|]. cbn [andb].
+    cbn [put_dedup set_dedup set_core kc]. rewrite advance_evicted_inactive. cbn [negb fst].
+    eexists _, true, None. split; reflexivity.
+  - set (k' := advance (kc (take_snapshot c e)) (id, data, rm) true false).
+    destruct (advance_fields (kc c) id data rm true) as (_ & Aep & Arec & _).
+    change (kc (take_snapshot c e)) with (kc c) in k'. fold k' in Aep, Arec.
+    apply settled_via_tail.
+    + apply blockedb_put; discriminate.
+    + exact K3.
+    + cbn [put_dedup set_dedup set_core kc]. apply has_secret_advance.
+    + left. unfold tail. cbn [put_dedup set_dedup set_core kc].
+      assert (wrong_epoch k' e = true) as ->.
+      { unfold wrong_epoch. destruct (N.eqb_spec (e_kind e) 1) as [E|_]; [contradiction|].
+        rewrite Aep, Hep. destruct (N.eqb_spec (k_epoch (kc c)) (k_epoch (kc c) + 1)) as [E|_]; [lia|reflexivity]. }
+      rewrite (is_better_new_snapshot _ e (retention c) (queue c) (kc c)); [|rewrite Hep; reflexivity|exact Hq].
+      unfold late. rewrite dedup_put, dget_aset_same. cbn [d_state].
+      change (PS_COMMIT =? PS_COMMIT) with true. cbv iota. cbn [fst].
+      apply sync_fix. cbn [put_dedup set_dedup set_core kc]. rewrite Aep, Arec. reflexivity.
+Qed.
+
+Lemma settled_late c e r :
+  blockedb c e = false -> e_kind e <> 3 -> has_secret (kc c) ->
+  wrong_epoch (kc c) e = true -> is_better c (e_epoch e) (e_ts e) (e_key e) = false ->
+  Settled e (fst (late c e r)).
+Proof.
+  intros Hb K3 Hs Hw Hnb. unfold late.
+  destruct (dget (e_id e) (dedup c)) as [d|] eqn:Hd; [|apply settled_rf].
+  destruct (d_state d =? PS_COMMIT) eqn:Hc; [|apply settled_rf]. cbn [fst].
+  apply settled_via_tail; [exact Hb|exact K3|exact Hs|].
+  left. unfold tail. change (wrong_epoch (kc (sync c)) e) with (wrong_epoch (kc c) e). rewrite Hw.
+  change (is_better (sync c) (e_epoch e) (e_ts e) (e_key e)) with (is_better c (e_epoch e) (e_ts e) (e_key e)). rewrite Hnb.
+  unfold late. change (dedup (sync c)) with (dedup c). rewrite Hd, Hc. reflexivity.
+Qed.
+
+Lemma settled_own_here c e :
+  blockedb c e = false -> e_kind e <> 3 -> has_secret (kc c) ->
+  wrong_epoch (kc c) e = false -> (e_author e =? me c) = true ->
+  (e_kind e <> 1 -> forall s, In s (queue c) -> sn_epoch s <> e_epoch e) ->
+  Settled e (fst (own_here c e)).
+Proof.
+  intros Hb K3 Hs Hw Hme Hq.
+  assert (Hself : fst (own_here c e) = c -> Settled e c).
+  { intros H. apply settled_via_tail; [exact Hb|exact K3|exact Hs|]. left. unfold tail, here. rewrite Hw, Hme. exact H. }
+  unfold own_here in *.
+  destruct (if e_kind e =? 0 then k_pending (kc c) else None) as [cm|] eqn:Hp.
+  { destruct (N.eqb_spec (e_kind e) 0) as [K0|_]; [|discriminate].
+    apply settled_apply_commit; [rewrite K0; discriminate|exact K3|exact Hw|apply Hq; rewrite K0; discriminate]. }
+  destruct (dget (e_id e) (dedup c)) as [d|] eqn:Hd; [|apply Hself; reflexivity].
+  destruct ((d_state d =? PS_CREATED) || (d_state d =? PS_RETRY)) eqn:Hcr.
+  - destruct (d_msg d) as [m|] eqn:Hm; [|apply Hself; reflexivity].
+    destruct (dget m (msgs c)) as [mr|] eqn:Hmr; [|apply Hself; reflexivity].
+    cbn [fst]. set (c' := put_dedup _ _ _ _ _).
+    apply settled_via_tail; [apply blockedb_put; discriminate|exact K3|exact Hs|].
+    left. unfold tail. change (kc c') with (kc c). rewrite Hw.
+    unfold here. change (me c') with (me c). rewrite Hme. unfold own_here. change (kc c') with (kc c). rewrite Hp.
+    assert (dget (e_id e) (dedup c') = Some (mkD PS_PROCESSED (d_epoch d) true (Some m))) as -> by apply dget_aset_same.
+    reflexivity.
+  - destruct (d_state d =? PS_COMMIT) eqn:Hc; [|apply Hself; reflexivity].
+    cbn [fst]. apply settled_via_tail; [exact Hb|exact K3|exact Hs|].
+    left. unfold tail. change (wrong_epoch (kc (sync c)) e) with (wrong_epoch (kc c) e). rewrite Hw.
+    unfold here. change (me (sync c)) with (me c). rewrite Hme. unfold own_here.
+    change (k_pending (kc (sync c))) with (k_pending (kc c)). rewrite Hp.
+    change (dedup (sync c)) with (dedup c). rewrite Hd, Hcr, Hc. reflexivity.
+Qed.
+
+Lemma settled_app_here c e r :
+  e_kind e <> 3 -> has_secret (kc c) -> wrong_epoch (kc c) e = false ->
+  (e_author e =? me c) = false -> (e_kind e =? 1) = true ->
+  Settled e (fst (app_here c e r)).
+Proof.
+  intros K3 Hs Hw Hme K1. unfold app_here.
+  destruct (negb _ || existsb (N.eqb (e_msg e)) (k_seen (kc c))); [apply settled_rf|]. cbn [fst].
+  set (k2 := upd_last _ (e_msg e) (e_msg e)).
+  pose proof (upd_last_fields (with_seen (kc c) (e_msg e :: k_seen (kc c))) (e_msg e) (e_msg e)) as F.
+  cbn [put_dedup set_dedup set_msgs set_core kc me is_admin retention dedup msgs queue rollbacks] in k2, F. fold k2 in F.
+  destruct F as (_ & Fep & _ & _ & _ & _ & Fsec & _ & _ & Fseen). cbn [with_seen k_epoch k_secrets k_seen] in Fep, Fsec, Fseen.
+  set (c' := set_core _ k2).
+  apply settled_via_tail.
+  - unfold blockedb.
+    change (dedup c') with (aset N.eqb (e_id e) (mkD PS_PROCESSED (Some (k_epoch (kc c))) true (Some (e_msg e))) (dedup c)).
+    rewrite dget_aset_same. reflexivity.
+  - exact K3.
+  - change (kc c') with k2. exact (has_secret_same _ _ Fep Fsec Hs).
+  - right. unfold tail. change (kc c') with k2. rewrite (wrong_epoch_ext _ _ e Fep), Hw.
+    unfold here. change (me c') with (me c). rewrite Hme, K1. unfold app_here. change (kc c') with k2. rewrite Fseen. cbn [existsb].
+    rewrite N.eqb_refl. cbn [orb]. rewrite orb_true_r. cbn [fst fail_unprocessable].
+    eexists _, true, _. split; reflexivity.
+Qed.
+
+Lemma settled_leave_here c e r :
+  e_kind e <> 3 -> has_secret (kc c) -> wrong_epoch (kc c) e = false ->
+  (e_author e =? me c) = false -> (e_kind e =? 1) = false -> (e_kind e =? 2) = true ->
+  Settled e (fst (leave_here c e r)).
+Proof.
+  intros K3 Hs Hw Hme K1 K2. unfold leave_here.
+  destruct (existsb (N.eqb (100000 + e_id e)) (k_seen (kc c))); [apply settled_rf|].
+  destruct (is_admin c && _); [apply settled_rf|]. cbn [fst].
+  set (k1 := if is_admin c then with_pending _ _ else _).
+  assert (k_epoch k1 = k_epoch (kc c) /\ k_secrets k1 = k_secrets (kc c) /\ k_seen k1 = (100000 + e_id e) :: k_seen (kc c))
+    as (Fep & Fsec & Fseen) by (unfold k1; destruct (is_admin c); repeat split; reflexivity).
+  set (c' := put_dedup (set_core c k1) _ _ _ _).
+  apply settled_via_tail.
+  - apply blockedb_put; discriminate.
+  - exact K3.
+  - change (kc c') with k1. exact (has_secret_same _ _ Fep Fsec Hs).
+  - right. unfold tail. change (kc c') with k1. rewrite (wrong_epoch_ext _ _ e Fep), Hw.
+    unfold here. change (me c') with (me c). rewrite Hme, K1, K2. unfold leave_here. change (kc c') with k1. rewrite Fseen.
+    cbn [existsb]. rewrite N.eqb_refl. cbn [orb fst fail_unprocessable].
+    eexists _, true, _. split; reflexivity.
+Qed.
+
+Lemma settled_commit_here c e r :
+  e_kind e <> 3 -> wrong_epoch (kc c) e = false -> e_kind e <> 1 ->
+  (forall s, In s (queue c) -> sn_epoch s <> e_epoch e) ->
+  Settled e (fst (commit_here c e r)).
+Proof.
+  intros K3 Hw K1 Hq. unfold commit_here.
+  destruct (negb (forallb _ (e_refs e))); [apply settled_rf|].
+  destruct (negb (e_auth e)); [apply settled_rf|].
+  apply settled_apply_commit; assumption.
+Qed.
+
+(* one pass that does not take the rollback arm leaves a settled client *)
+Lemma step_settled f c e :
+  (wrong_epoch (kc (ens c)) e = true -> is_better (ens c) (e_epoch e) (e_ts e) (e_key e) = false) ->
+  (wrong_epoch (kc (ens c)) e = false -> e_kind e <> 1 -> forall s, In s (queue c) -> sn_epoch s <> e_epoch e) ->
+  Settled e (fst (process f c e)).
+Proof.
+  intros Hnb Hq. rewrite process_unfold.
+  destruct (blockedb c e) eqn:Hb; [left; apply fixed_blocked; exact Hb|].
+  destruct ((e_kind e =? 3) && (e_bad e <? 2)); [apply settled_rf|].
+  destruct ((e_kind e =? 3) && (e_bad e =? 2)); [apply settled_rf|].
+  destruct (negb (k_active (kc c))); [apply settled_rf|].
+  cbv zeta.
+  destruct (N.eqb_spec (e_kind e) 3) as [K3|K3]; [apply settled_rf|]. cbn [orb].
+  destruct (negb (outer_opens (kc (ens c)) (e_state e))); [apply settled_rf|].
+  assert (Hs : has_secret (kc (ens c))) by apply has_secret_es.
+  destruct (wrong_epoch (kc (ens c)) e) eqn:Hw.
+  - rewrite (Hnb eq_refl). apply settled_late; [exact Hb|exact K3|exact Hs|exact Hw|exact (Hnb eq_refl)].
+  - specialize (Hq eq_refl). unfold here.
+    destruct (e_author e =? me (ens c)) eqn:Hme.
+    + apply settled_own_here; [exact Hb|exact K3|exact Hs|exact Hw|exact Hme|exact Hq].
+    + destruct (e_kind e =? 1) eqn:K1; [apply settled_app_here; assumption|].
+      destruct (e_kind e =? 2) eqn:K2; [apply settled_leave_here; assumption|].
+      assert (e_kind e <> 1) as K1' by (destruct (N.eqb_spec (e_kind e) 1); [discriminate|assumption]).
+      apply settled_commit_here; [exact K3|exact Hw|exact K1'|exact (Hq K1')].
+Qed.
+
+Lemma find_snap_none ep q : (forall x, In x q -> sn_epoch x <> ep) -> find_snap ep q = None.
+Proof. intros H. rewrite <- (app_nil_r q). rewrite find_snap_app_none; [reflexivity|exact H]. Qed.
+
+Lemma deliver_settled c e :
+  (forall s, In s (queue c) -> sn_epoch s <> k_epoch (kc c)) -> Settled e (fst (deliver c e)).
+Proof.
+  intros Hq. unfold deliver at 1.
+  destruct (wrong_epoch (kc (ens c)) e && is_better (ens c) (e_epoch e) (e_ts e) (e_key e)) eqn:WB.
+  - apply andb_true_iff in WB. destruct WB as [Hw Hbt]. rewrite process_unfold.
+    destruct (blockedb c e) eqn:Hb; [left; apply fixed_blocked; exact Hb|].
+    destruct ((e_kind e =? 3) && (e_bad e <? 2)); [apply settled_rf|].
+    destruct ((e_kind e =? 3) && (e_bad e =? 2)); [apply settled_rf|].
+    destruct (negb (k_active (kc c))); [apply settled_rf|].
+    cbv zeta.
+    destruct ((e_kind e =? 3) || negb (outer_opens (kc (ens c)) (e_state e))); [apply settled_rf|].
+    rewrite Hw, Hbt.
+    destruct (find_snap (e_epoch e) (queue (ens c))) as [s|]; [|apply settled_rf].
+    apply step_settled.
+    + intros _. unfold is_better.
+      change (queue (ens (rollback (ens c) (e_epoch e) s))) with (take_until (e_epoch e) (queue c)).
+      rewrite find_snap_none; [reflexivity|apply take_until_no].
+    + intros _ _. change (queue (rollback (ens c) (e_epoch e) s)) with (take_until (e_epoch e) (queue c)). apply take_until_no.
+  - apply step_settled.
+    + intros Hw. rewrite Hw in WB. exact WB.
+    + intros Hw K1 s Hs. rewrite (wrong_epoch_false_eq _ _ K1 Hw). cbn [ens set_core kc]. rewrite es_epoch. exact (Hq s Hs).
+Qed.
+
+Lemma redelivery_idempotent : forall c e, Inv c ->
+  (forall s, In s (queue c) -> sn_epoch s <> k_epoch (kc c)) ->
+  proj (fst (deliver (fst (deliver c e)) e)) = proj (fst (deliver c e)).
+Proof. intros c e _ Hq. exact (proj1 (settled_step e _ (deliver_settled c e Hq))). Qed.
+
+Lemma redelivery_idempotent_n : forall c e n, Inv c ->
+  (forall s, In s (queue c) -> sn_epoch s <> k_epoch (kc c)) ->
+  proj (deliver_all (fst (deliver c e)) (repeat e n)) = proj (fst (deliver c e)).
+Proof.
+  intros c e n _ Hq. destruct (settled_step e _ (deliver_settled c e Hq)) as [P F].
+  destruct n as [|n]; [reflexivity|].
+  unfold deliver_all. cbn [repeat fold_left]. fold (deliver_all (fst (deliver (fst (deliver c e)) e)) (repeat e n)).
+  rewrite (fixed_all e _ n F). exact P.
+Qed.
+
+(* ================================================================ C01: single-fork convergence *)
+Lemma newer_spec a b : newer a b = true <-> mip03_lt b a.
+Proof. unfold newer, mip03_lt. lia. Qed.
+
+Lemma mip03_min_in d K : K <> [] -> In (mip03_min d K) K.
+Proof.
+  induction K as [|e r IH]; intros H; [contradiction|]. cbn [mip03_min].
+  destruct r as [|e2 r']; [left; reflexivity|].
+  destruct (newer _ _); [left; reflexivity|]. right. apply IH. discriminate.
+Qed.
+
+Lemma mip03_min_le d K : forall x, In x K -> ~ mip03_lt (ev_key x) (ev_key (mip03_min d K)).
+Proof.
+  induction K as [|e r IH]; intros x Hx; [destruct Hx|]. cbn [mip03_min].
+  destruct r as [|e2 r'].
+  - destruct Hx as [<-|[]]. apply mip03_lt_irrefl.
+  - set (m := mip03_min d (e2 :: r')) in *.
+    destruct (newer (ev_key m) (ev_key e)) eqn:E.
+    + apply newer_spec in E. destruct Hx as [<-|Hx]; [apply mip03_lt_irrefl|].
+      intros H. exact (IH x Hx (mip03_lt_trans _ _ _ H E)).
+    + destruct Hx as [<-|Hx]; [|exact (IH x Hx)].
+      intros H. apply newer_spec in H. rewrite H in E. discriminate.
+Qed.
+
+Lemma NoDup_map_inj {A B} (f : A -> B) l a b : NoDup (map f l) -> In a l -> In b l -> f a = f b -> a = b.
+Proof.
+  induction l as [|x l IH]; intros Hnd Ha Hb E; [destruct Ha|].
+  cbn [map] in Hnd. inversion Hnd as [|? ? Hnotin Hnd']; subst.
+  destruct Ha as [<-|Ha], Hb as [<-|Hb].
+  - reflexivity.
+  - exfalso. apply Hnotin. rewrite E. apply in_map. exact Hb.
+  - exfalso. apply Hnotin. rewrite <- E. apply in_map. exact Ha.
+  - exact (IH Hnd' Ha Hb E).
+Qed.
+
+Lemma mip03_min_unique d K m :
+  NoDup (map ev_key K) -> In m K -> (forall x, In x K -> ~ mip03_lt (ev_key x) (ev_key m)) -> m = mip03_min d K.
+Proof.
+  intros Hnd Hm Hle.
+  assert (K <> []) as Hne by (intros ->; destruct Hm).
+  pose proof (mip03_min_in d K Hne) as Hin.
+  apply (NoDup_map_inj ev_key K); [exact Hnd|exact Hm|exact Hin|].
+  destruct (pair_eqb (ev_key m) (ev_key (mip03_min d K))) eqn:E; [apply pair_eqb_spec; exact E|].
+  exfalso.
+  assert (ev_key m <> ev_key (mip03_min d K)) as Hk by (intros H; apply pair_eqb_spec in H; rewrite H in E; discriminate).
+  destruct (mip03_lt_total _ _ Hk) as [H|H]; [exact (mip03_min_le d K m Hm H)|exact (Hle _ Hin H)].
+Qed.
+
+Lemma opens_lookback k ep st :
+  dget ep (k_secrets k) = Some st -> ep < k_epoch k -> k_epoch k <= ep + LOOKBACK -> outer_opens k st = true.
+Proof.
+  intros Hd H1 H2. unfold outer_opens. apply orb_true_iff. right. apply existsb_exists.
+  exists (ep, st). split; [apply dget_In; exact Hd|]. cbn [fst snd]. rewrite N.eqb_refl. lia.
+Qed.
+
+Lemma es_secrets_other k ep : ep <> k_epoch k -> dget ep (k_secrets (ensure_secret k)) = dget ep (k_secrets k).
+Proof.
+  intros H. unfold ensure_secret. destruct (dget (k_epoch k) (k_secrets k)); [reflexivity|].
+  cbn [with_secrets k_secrets]. apply dget_aset_other. exact H.
+Qed.
+
+(* ---- the dedup table under a rollback *)
+Definition rb1 (ep : N) (r : drec) : drec :=
+  if d_group r && (match d_epoch r with Some x => ep <? x | None => false end) then mkD PS_INVALID (d_epoch r) (d_group r) (d_msg r) else r.
+Definition rb2 (r : drec) : drec :=
+  if d_group r && (d_state r =? PS_FAILED) && (match d_epoch r with None => true | Some _ => false end)
+  then mkD PS_RETRY (d_epoch r) (d_group r) (d_msg r) else r.
+
+Definition inval_f (ep : N) (kv : N * drec) : N * drec :=
+  let r := snd kv in
+  if d_group r && (match d_epoch r with Some x => ep <? x | None => false end) then (fst kv, mkD PS_INVALID (d_epoch r) (d_group r) (d_msg r)) else kv.
+Definition retry_f (kv : N * drec) : N * drec :=
+  let r := snd kv in
+  if d_group r && (d_state r =? PS_FAILED) && (match d_epoch r with None => true | Some _ => false end)
+  then (fst kv, mkD PS_RETRY (d_epoch r) (d_group r) (d_msg r)) else kv.
+
+Lemma dedup_rollback c ep s : dedup (rollback c ep s) = map retry_f (map (inval_f ep) (dedup c)).
+Proof. reflexivity. Qed.
+
+Lemma inval_f_fst ep kv : fst (inval_f ep kv) = fst kv.
+Proof. unfold inval_f. cbv zeta. destruct (d_group (snd kv) && _); reflexivity. Qed.
+Lemma retry_f_fst kv : fst (retry_f kv) = fst kv.
+Proof. unfold retry_f. cbv zeta. destruct (d_group (snd kv) && (d_state (snd kv) =? PS_FAILED) && _); reflexivity. Qed.
+Lemma inval_f_snd ep id r : snd (inval_f ep (id, r)) = rb1 ep r.
+Proof. unfold inval_f, rb1. cbv zeta. cbn [snd fst]. destruct (d_group r && _); reflexivity. Qed.
+Lemma retry_f_snd id r : snd (retry_f (id, r)) = rb2 r.
+Proof. unfold retry_f, rb2. cbv zeta. cbn [snd fst]. destruct (d_group r && (d_state r =? PS_FAILED) && _); reflexivity. Qed.
+
+Lemma dget_rollback c ep s id :
+  dget id (dedup (rollback c ep s)) = match dget id (dedup c) with Some r => Some (rb2 (rb1 ep r)) | None => None end.
+Proof.
+  rewrite dedup_rollback. rewrite (dget_map retry_f) by apply retry_f_fst. rewrite (dget_map (inval_f ep)) by apply inval_f_fst.
+  destruct (dget id (dedup c)) as [r|]; [|reflexivity].
+  rewrite inval_f_snd, retry_f_snd. reflexivity.
+Qed.
+
+Section Fork.
+  Variable k1 : core.      (* the pre-fork core (exporter secret ensured) *)
+  Variables me0 ret : N.
+  Hypothesis k1_active : k_active k1 = true.
+  Hypothesis k1_secret : dget (k_epoch k1) (k_secrets k1) = Some (k_cur k1).
+  Hypothesis ret_pos : 1 <= ret.
+
+  (* an event that the engine applies as the next commit on the pre-fork state *)
+  Definition applies (x : event) : Prop :=
+    e_kind x = 0 /\ e_state x = k_cur k1 /\ e_epoch x = k_epoch k1 /\ e_removes x = [] /\ e_ts x <> 0 /\
+    ((e_author x <> me0 /\ e_auth x = true /\ e_refs x = []) \/ (e_author x = me0 /\ k_pending k1 = Some (commit_of x))).
+
+  Definition fresh (d : list (N * drec)) (x : event) : Prop :=
+    dget (e_id x) d = None \/
+    exists r, dget (e_id x) d = Some r /\ d_state r = PS_COMMIT /\ d_epoch r = Some (k_epoch k1).
+
+  Definition blocking (d : list (N * drec)) (x : event) : Prop :=
+    exists r, dget (e_id x) d = Some r /\ (d_state r = PS_INVALID \/ (d_state r = PS_FAILED /\ d_epoch r <> None)).
+
+  Definition snapm (m : event) : snap := mkSnap (k_epoch k1) (e_key m) (e_ts m) k1.
+
+  Definition Forked (m : event) (c : client) : Prop :=
+    me c = me0 /\ retention c = ret /\ kc c = advance k1 (commit_of m) true false /\
+    (exists q', queue c = q' ++ [snapm m] /\ forall s, In s q' -> sn_epoch s <> k_epoch k1) /\
+    dget (e_id m) (dedup c) = Some (mkD PS_COMMIT (Some (k_epoch k1 + 1)) true None).
+
+  Lemma k1_es : ensure_secret k1 = k1.
+  Proof. exact (es_fix _ _ k1_secret). Qed.
+
+  Lemma fresh_not_blocked c x : fresh (dedup c) x -> blockedb c x = false.
+  Proof. unfold blockedb. intros [H|(r & H & St & _)]; rewrite H; [reflexivity|]. rewrite St. reflexivity. Qed.
+
+  Lemma blocking_blocked c x : blocking (dedup c) x -> blockedb c x = true.
+  Proof. unfold blockedb. intros (r & H & [St|[St _]]); rewrite H, St; reflexivity. Qed.
+
+  Lemma apply_at_base f b x :
+    me b = me0 -> ensure_secret (kc b) = k1 -> applies x -> blockedb b x = false ->
+    process f b x = apply_commit (ens b) x (commit_of x).
+  Proof.
+    intros Hme Hk (K0 & Hst & Hep & Hrm & Hts & Hau) Hb.
+    rewrite process_unfold, Hb, K0. change (0 =? 3) with false. cbn [andb orb].
+    assert (k_active (kc b) = true) as -> by (rewrite <- (es_active (kc b)), Hk; exact k1_active).
+    cbn [negb]. cbv zeta. change (kc (ens b)) with (ensure_secret (kc b)). rewrite Hk.
+    assert (outer_opens k1 (e_state x) = true) as ->.
+    { unfold outer_opens. rewrite k1_secret, Hst, N.eqb_refl. reflexivity. }
+    cbn [negb].
+    assert (wrong_epoch k1 x = false) as ->.
+    { unfold wrong_epoch. rewrite K0, Hep, N.eqb_refl. reflexivity. }
+    unfold here. change (me (ens b)) with (me b). rewrite Hme.
+    destruct Hau as [(Hne & Hauth & Hrefs)|(Heq & Hpend)].
+    - destruct (N.eqb_spec (e_author x) me0) as [E|_]; [contradiction|].
+      rewrite K0. change (0 =? 1) with false. change (0 =? 2) with false. cbv iota.
+      unfold commit_here. rewrite Hrefs, Hauth. reflexivity.
+    - rewrite Heq, N.eqb_refl. unfold own_here. rewrite K0. change (0 =? 0) with true. cbv iota.
+      change (kc (ens b)) with (ensure_secret (kc b)). rewrite Hk, Hpend. reflexivity.
+  Qed.
+
+  Lemma apply_commit_forked b1 x :
+    kc b1 = k1 -> me b1 = me0 -> retention b1 = ret -> (forall s, In s (queue b1) -> sn_epoch s <> k_epoch k1) ->
+    applies x ->
+    Forked x (fst (apply_commit b1 x (commit_of x))) /\
+    dedup (fst (apply_commit b1 x (commit_of x))) = aset N.eqb (e_id x) (mkD PS_COMMIT (Some (k_epoch k1 + 1)) true None) (dedup b1).
+  Proof.
+    intros Hk Hme Hret Hq (K0 & Hst & Hep & Hrm & Hts & Hau).
+    assert (Hcm : commit_of x = (e_id x, e_data x, [])) by (unfold commit_of; rewrite Hrm; reflexivity).
+    rewrite Hcm. unfold apply_commit. cbn [snd].
+    change (evicted_by b1 []) with false. cbv iota. cbn [fst].
+    change (kc (take_snapshot b1 x)) with (kc b1). rewrite Hk.
+    destruct (advance_fields k1 (e_id x) (e_data x) [] true) as (_ & Aep & _ & _).
+    split.
+    - unfold Forked. cbn [put_dedup set_dedup set_core take_snapshot set_queue me retention kc queue dedup].
+      split; [exact Hme|]. split; [exact Hret|]. split; [rewrite Hcm; reflexivity|]. split.
+      + rewrite Hk, Hret. fold (snapm x).
+        destruct (prune_app_last ret (queue b1) (snapm x)) as [[_ R]|(q2 & E & Hsub)]; [lia|].
+        exists q2. split; [exact E|]. intros s Hs. apply Hq. apply Hsub. exact Hs.
+      + rewrite dget_aset_same. rewrite Aep. reflexivity.
+    - cbn [put_dedup set_dedup set_core take_snapshot set_queue dedup]. rewrite Aep. reflexivity.
+  Qed.
+
+  Lemma forked_fields m c : Forked m c ->
+    k_cur (kc c) = e_id m + 1 /\ k_epoch (kc c) = k_epoch k1 + 1 /\ k_rec_epoch (kc c) = k_epoch k1 + 1 /\ k_active (kc c) = true.
+  Proof.
+    intros (_ & _ & Hkc & _). rewrite Hkc. unfold commit_of.
+    destruct (advance_fields k1 (e_id m) (e_data m) (e_removes m) true) as (A1 & A2 & A3 & A4).
+    rewrite A1, A2, A3, A4. auto.
+  Qed.
+
+  Lemma forked_process f c m x :
+    Forked m c -> e_ts m <> 0 -> applies x -> blockedb c x = false ->
+    process f c x =
+      if (e_ts x <? e_ts m) || ((e_ts x =? e_ts m) && (e_key x <? e_key m))
+      then match f with S f' => process f' (rollback c (k_epoch k1) (snapm m)) x | O => fail_unprocessable c x (k_rec_epoch (kc c)) end
+      else late c x (k_rec_epoch (kc c)).
+  Proof.
+    intros HF Htm (K0 & Hst & Hep & _) Hb.
+    destruct (forked_fields m c HF) as (Acur & Aep & Arec & Aact).
+    destruct HF as (Hme & Hret & Hkc & (q' & Hq & Hq') & Hrec).
+    assert (Hs : has_secret (kc c)) by (rewrite Hkc; apply has_secret_advance).
+    rewrite process_unfold, Hb, K0. change (0 =? 3) with false. cbn [andb orb].
+    rewrite Aact. cbn [negb]. cbv zeta. rewrite (has_secret_ens c Hs).
+    assert (outer_opens (kc c) (e_state x) = true) as ->.
+    { apply (opens_lookback _ (k_epoch k1)); [|lia|unfold LOOKBACK; lia].
+      rewrite Hkc, Hst. unfold commit_of, advance. cbn [negb andb].
+      rewrite es_secrets_other; [exact k1_secret|]. cbn [k_epoch]. lia. }
+    cbn [negb].
+    assert (wrong_epoch (kc c) x = true) as ->.
+    { unfold wrong_epoch. rewrite K0, Hep, Aep. change (0 =? 1) with false. cbv iota.
+      destruct (N.eqb_spec (k_epoch k1) (k_epoch k1 + 1)) as [E|_]; [lia|reflexivity]. }
+    assert (Hfs : find_snap (e_epoch x) (queue c) = Some (snapm m)).
+    { rewrite Hq, Hep. rewrite find_snap_app_none by exact Hq'. unfold find_snap. cbn [find snapm sn_epoch].
+      rewrite N.eqb_refl. reflexivity. }
+    unfold is_better. rewrite Hfs. cbn [snapm sn_ts sn_key].
+    destruct (N.eqb_spec (e_ts m) 0) as [E|_]; [contradiction|].
+    destruct ((e_ts x <? e_ts m) || ((e_ts x =? e_ts m) && (e_key x <? e_key m))); [|reflexivity].
+    rewrite Hep. destruct f; reflexivity.
+  Qed.
+
+  (* the fork set *)
+  Variable K : list event.
+  Hypothesis K_applies : forall x, In x K -> applies x.
+  Hypothesis K_inj : forall x y, In x K -> In y K -> e_id x = e_id y -> x = y.
+
+  Definition lt_ev (x y : event) : Prop := mip03_lt (ev_key x) (ev_key y).
+
+  (* m is applied; every other member of K is either still untouched, or refused for good and not better than m *)
+  Definition Recs (m : event) (c : client) : Prop :=
+    forall y, In y K -> y <> m -> fresh (dedup c) y \/ (blocking (dedup c) y /\ ~ lt_ev y m).
+
+  Definition FInv (m : event) (S : list event) (c : client) : Prop :=
+    In m K /\ Forked m c /\ Recs m c /\ forall y, In y S -> ~ lt_ev y m.
+
+  Lemma fresh_rollback c s x : fresh (dedup c) x -> fresh (dedup (rollback c (k_epoch k1) s)) x.
+  Proof.
+    intros [H|(r & H & St & Ep)]; [left|right]; rewrite dget_rollback, H; [reflexivity|].
+    exists r. split; [|split; assumption]. f_equal.
+    unfold rb1. rewrite Ep, N.ltb_irrefl, andb_false_r. unfold rb2. rewrite St.
+    change (PS_COMMIT =? PS_FAILED) with false. rewrite andb_false_r. reflexivity.
+  Qed.
+
+  Lemma rb2_invalid r : d_state r = PS_INVALID -> rb2 r = r.
+  Proof. intros H. unfold rb2. rewrite H. change (PS_INVALID =? PS_FAILED) with false. rewrite andb_false_r. reflexivity. Qed.
+
+  Lemma blocking_rollback c s x : blocking (dedup c) x -> blocking (dedup (rollback c (k_epoch k1) s)) x.
+  Proof.
+    intros (r & H & Hst).
+    unfold blocking. rewrite dget_rollback, H. eexists. split; [reflexivity|].
+    unfold rb1. destruct (d_group r && _).
+    - left. rewrite rb2_invalid; reflexivity.
+    - destruct Hst as [St|[St Ep]].
+      + left. rewrite rb2_invalid by exact St. exact St.
+      + right. unfold rb2. destruct (d_epoch r) as [x0|] eqn:Ex; [|contradiction]. cbv iota. rewrite andb_false_r.
+        split; [exact St|rewrite Ex; discriminate].
+  Qed.
+
+  Lemma commit_rollback c s m :
+    dget (e_id m) (dedup c) = Some (mkD PS_COMMIT (Some (k_epoch k1 + 1)) true None) ->
+    blocking (dedup (rollback c (k_epoch k1) s)) m.
+  Proof.
+    intros H. unfold blocking. rewrite dget_rollback, H. eexists. split; [reflexivity|].
+    left. unfold rb1. cbn [d_group d_epoch andb].
+    destruct (N.ltb_spec (k_epoch k1) (k_epoch k1 + 1)) as [_|L]; [|lia].
+    rewrite rb2_invalid; reflexivity.
+  Qed.
+
+  Lemma fresh_aset d id v x : e_id x <> id -> fresh d x -> fresh (aset N.eqb id v d) x.
+  Proof. intros Hne H. unfold fresh in *. rewrite dget_aset_other by exact Hne. exact H. Qed.
+  Lemma blocking_aset d id v x : e_id x <> id -> blocking d x -> blocking (aset N.eqb id v d) x.
+  Proof. intros Hne H. unfold blocking in *. rewrite dget_aset_other by exact Hne. exact H. Qed.
+
+  Lemma lt_ev_dec x y : ((e_ts x <? e_ts y) || ((e_ts x =? e_ts y) && (e_key x <? e_key y))) = true <-> lt_ev x y.
+  Proof. apply lt_bool_spec. Qed.
+
+  Lemma fork_step m S c x : FInv m S c -> In x K -> exists m', FInv m' (x :: S) (fst (deliver c x)).
+  Proof.
+    intros (HmK & HF & HR & HS) HxK.
+    pose proof (K_applies m HmK) as Hma. pose proof (K_applies x HxK) as Hxa.
+    assert (Htm : e_ts m <> 0) by apply Hma.
+    destruct (forked_fields m c HF) as (Acur & Aep & Arec & Aact).
+    assert (Hsync : sync c = c) by (apply sync_fix; rewrite Aep, Arec; reflexivity).
+    assert (Hrecm : dget (e_id m) (dedup c) = Some (mkD PS_COMMIT (Some (k_epoch k1 + 1)) true None)) by apply HF.
+    destruct (N.eq_dec (e_id x) (e_id m)) as [Eid|Nid].
+    { (* the applied commit again *)
+      assert (x = m) as -> by (apply K_inj; assumption).
+      exists m. unfold deliver. rewrite (forked_process _ c m m HF Htm Hma).
+      2:{ unfold blockedb. rewrite Hrecm. reflexivity. }
+      assert ((e_ts m <? e_ts m) || ((e_ts m =? e_ts m) && (e_key m <? e_key m)) = false) as -> by lia.
+      unfold late. rewrite Hrecm. cbn [d_state]. change (PS_COMMIT =? PS_COMMIT) with true. cbv iota. cbn [fst]. rewrite Hsync.
+      split; [exact HmK|]. split; [exact HF|]. split; [exact HR|].
+      intros y [<-|Hy]; [apply mip03_lt_irrefl|exact (HS y Hy)]. }
+    assert (Hxm : x <> m) by (intros ->; apply Nid; reflexivity).
+    destruct (HR x HxK Hxm) as [Hfr|[Hbl Hnlt]].
+    2:{ (* refused earlier: blocked *)
+      exists m. unfold deliver. rewrite process_unfold, (blocking_blocked c x Hbl). cbn [fst].
+      split; [exact HmK|]. split; [exact HF|]. split; [exact HR|].
+      intros y [<-|Hy]; [exact Hnlt|exact (HS y Hy)]. }
+    unfold deliver. rewrite (forked_process _ c m x HF Htm Hxa (fresh_not_blocked c x Hfr)).
+    destruct ((e_ts x <? e_ts m) || ((e_ts x =? e_ts m) && (e_key x <? e_key m))) eqn:Elt.
+    - (* better: roll back and apply x *)
+      apply lt_ev_dec in Elt.
+      set (c2 := rollback c (k_epoch k1) (snapm m)).
+      destruct HF as (Hme & Hret & Hkc & (q' & Hq & Hq') & _).
+      assert (Hq2 : queue c2 = q').
+      { change (queue c2) with (take_until (k_epoch k1) (queue c)). rewrite Hq. apply take_until_app_last; [exact Hq'|reflexivity]. }
+      assert (Hfr2 : fresh (dedup c2) x) by (apply fresh_rollback; exact Hfr).
+      rewrite (apply_at_base 1 c2 x); [|exact Hme|exact k1_es|exact Hxa|apply fresh_not_blocked; exact Hfr2].
+      assert (Hens : ens c2 = c2) by (apply has_secret_ens; exists (k_cur k1); exact k1_secret).
+      rewrite Hens.
+      destruct (apply_commit_forked c2 x eq_refl Hme Hret) as [HF' Hd']; [rewrite Hq2; exact Hq'|exact Hxa|].
+      exists x. split; [exact HxK|]. split; [exact HF'|]. split.
+      + intros y HyK Hyx. rewrite Hd'.
+        assert (e_id y <> e_id x) as Hidy by (intros E; apply Hyx; apply K_inj; assumption).
+        destruct (N.eq_dec (e_id y) (e_id m)) as [Eym|Nym].
+        * assert (y = m) as -> by (apply K_inj; assumption).
+          right. split; [apply blocking_aset; [exact Hidy|]; apply commit_rollback; exact Hrecm|].
+          intros H. exact (mip03_lt_irrefl _ (mip03_lt_trans _ _ _ H Elt)).
+        * assert (y <> m) as Hym by (intros ->; apply Nym; reflexivity).
+          destruct (HR y HyK Hym) as [Hf|[Hb Hn]].
+          -- left. apply fresh_aset; [exact Hidy|]. apply fresh_rollback. exact Hf.
+          -- right. split; [apply blocking_aset; [exact Hidy|]; apply blocking_rollback; exact Hb|].
+             intros H. apply Hn. exact (mip03_lt_trans _ _ _ H Elt).
+      + intros y [<-|Hy]; [apply mip03_lt_irrefl|].
+        intros H. apply (HS y Hy). exact (mip03_lt_trans _ _ _ H Elt).
+    - (* not better: refused, or (own commit, still recorded ProcessedCommit) acknowledged without effect *)
+      assert (Hnlt : ~ lt_ev x m) by (intros H; apply lt_ev_dec in H; rewrite H in Elt; discriminate).
+      exists m. unfold late.
+      destruct Hfr as [Hnone|(r & Hr & St & Ep)].
+      + rewrite Hnone. cbn [fst fail_unprocessable].
+        split; [exact HmK|]. split.
+        * destruct HF as (Hme & Hret & Hkc & Hqq & _). unfold Forked.
+          cbn [record_failure set_dedup me retention kc queue dedup].
+          repeat split; try assumption. rewrite dget_aset_other by (intros E; apply Nid; symmetry; exact E). exact Hrecm.
+        * split.
+          -- intros y HyK Hym. cbn [record_failure set_dedup dedup].
+             destruct (N.eq_dec (e_id y) (e_id x)) as [Eyx|Nyx].
+             ++ assert (y = x) as -> by (apply K_inj; assumption).
+                right. split; [|exact Hnlt]. unfold blocking. rewrite dget_aset_same. eexists. split; [reflexivity|].
+                right. split; [reflexivity|discriminate].
+             ++ destruct (HR y HyK Hym) as [Hf|[Hb Hn]].
+                ** left. apply fresh_aset; assumption.
+                ** right. split; [apply blocking_aset; assumption|exact Hn].
+          -- intros y [<-|Hy]; [exact Hnlt|exact (HS y Hy)].
+      + rewrite Hr, St. change (PS_COMMIT =? PS_COMMIT) with true. cbv iota. cbn [fst]. rewrite Hsync.
+        split; [exact HmK|]. split; [exact HF|]. split; [exact HR|].
+        intros y [<-|Hy]; [exact Hnlt|exact (HS y Hy)].
+  Qed.
+
+  Lemma fork_run ds : forall m S c, FInv m S c -> (forall x, In x ds -> In x K) ->
+    exists m', FInv m' (rev ds ++ S) (deliver_all c ds).
+  Proof.
+    induction ds as [|x ds IH]; intros m S c HI Hds; [exists m; exact HI|].
+    destruct (fork_step m S c x HI (Hds x (or_introl eq_refl))) as (m1 & H1).
+    destruct (IH m1 (x :: S) _ H1 (fun y Hy => Hds y (or_intror Hy))) as (m2 & H2).
+    exists m2. cbn [rev]. rewrite <- app_assoc. exact H2.
+  Qed.
+
+  Theorem fork_converges b ds d :
+    me b = me0 -> retention b = ret -> ensure_secret (kc b) = k1 ->
+    (forall s, In s (queue b) -> sn_epoch s <> k_epoch k1) ->
+    K <> [] -> (forall x, In x K -> fresh (dedup b) x) -> NoDup (map ev_key K) ->
+    (forall x, In x ds -> In x K) -> (forall x, In x K -> In x ds) ->
+    Forked (mip03_min d K) (deliver_all b ds).
+  Proof.
+    intros Hme Hret Hk Hq Hne Hfr Hnd Hsub Hsup.
+    destruct ds as [|x0 ds]; [destruct K as [|y K']; [contradiction|destruct (Hsup y (or_introl eq_refl))]|].
+    assert (Hx0 : In x0 K) by (apply Hsub; left; reflexivity).
+    assert (H0 : FInv x0 [x0] (fst (deliver b x0))).
+    { unfold deliver. rewrite (apply_at_base 2 b x0 Hme Hk (K_applies x0 Hx0) (fresh_not_blocked b x0 (Hfr x0 Hx0))).
+      destruct (apply_commit_forked (ens b) x0) as [HF Hd]; [exact Hk|exact Hme|exact Hret|exact Hq|exact (K_applies x0 Hx0)|].
+      split; [exact Hx0|]. split; [exact HF|]. split.
+      - intros y HyK Hyx. left. rewrite Hd. apply fresh_aset; [|exact (Hfr y HyK)].
+        intros E. apply Hyx. apply K_inj; assumption.
+      - intros y [<-|[]]. apply mip03_lt_irrefl. }
+    destruct (fork_run ds x0 [x0] _ H0 (fun y Hy => Hsub y (or_intror Hy))) as (m & HmK & HF & _ & HS).
+    unfold deliver_all. cbn [fold_left]. fold (deliver_all (fst (deliver b x0)) ds).
+    rewrite <- (mip03_min_unique d K m Hnd HmK); [exact HF|].
+    intros y Hy. apply HS. apply in_or_app. destruct (Hsup y Hy) as [<-|Hy']; [right; left; reflexivity|left; apply in_rev in Hy'; exact Hy'].
+  Qed.
+End Fork.
+
+Lemma fork_ready_secret c : fork_ready c ->
+  dget (k_epoch (ensure_secret (kc c))) (k_secrets (ensure_secret (kc c))) = Some (k_cur (ensure_secret (kc c))).
+Proof.
+  intros (_ & _ & _ & _ & _ & Hsec). rewrite es_epoch, es_cur. unfold ensure_secret.
+  destruct (dget (k_epoch (kc c)) (k_secrets (kc c))) as [x|] eqn:E.
+  - rewrite E. f_equal. apply Hsec. reflexivity.
+  - cbn [with_secrets k_secrets]. apply dget_aset_same.
+Qed.
+
+Lemma competitor_applies c x : competitor c x -> applies (ensure_secret (kc c)) (me c) x.
+Proof.
+  intros (K0 & Hst & Hep & Hau & Hauth & Hrm & Hrefs & Hts & _). unfold applies. rewrite es_cur, es_epoch.
+  repeat split; try assumption. left. repeat split; assumption.
+Qed.
+
+Lemma single_fork_converges : forall c K ds d,
+  fork_ready c -> fork_set c K ->
+  (forall e, In e ds -> In e K) -> (forall e, In e K -> In e ds) ->
+  let c' := deliver_all c ds in
+  k_cur (kc c') = e_id (mip03_min d K) + 1 /\ k_epoch (kc c') = k_epoch (kc c) + 1 /\
+  k_rec_epoch (kc c') = k_epoch (kc c) + 1 /\ k_active (kc c') = true.
+Proof.
+  intros c K ds d Hfr (Hne & Hcomp & _ & Hnd & Hinj) Hsub Hsup. cbv zeta.
+  pose proof (fork_ready_secret c Hfr) as Hsec.
+  destruct Hfr as (Hact & _ & Hret & _ & Hq & _).
+  rewrite Forall_forall in Hcomp.
+  assert (Hk1a : k_active (ensure_secret (kc c)) = true) by (rewrite es_active; exact Hact).
+  pose proof (fork_converges (ensure_secret (kc c)) (me c) (retention c) Hk1a Hsec Hret K
+                (fun x Hx => competitor_applies c x (Hcomp x Hx)) Hinj c ds d eq_refl eq_refl eq_refl) as HF.
+  rewrite es_epoch in HF.
+  assert (Forked (ensure_secret (kc c)) (me c) (retention c) (mip03_min d K) (deliver_all c ds)) as HF'.
+  { apply HF; try assumption.
+    - intros s Hs. specialize (Hq s Hs). lia.
+    - intros x Hx. left. apply (Hcomp x Hx). }
+  destruct (forked_fields _ _ _ Hk1a _ _ HF') as (A1 & A2 & A3 & A4).
+  rewrite es_epoch in A2, A3. auto.
+Qed.
+
+Lemma own_echo_converges : forall c own K ds d,
+  fork_ready c -> e_kind own = 0 -> e_ts own <> 0 -> e_removes own = [] -> e_refs own = [] ->
+  aget N.eqb (e_id own) (dedup c) = None ->
+  let own' := mkEvent (e_id own) 0 (e_ts own) (e_key own) (me c) (k_cur (kc c)) (k_epoch (kc c)) true (e_data own) 0 [] [] 0 in
+  let c0 := committed c own' in
+  fork_set c K -> ~ In (e_id own) (map e_id K) -> ~ In (ev_key own') (map ev_key K) ->
+  (forall e, In e ds -> In e (own' :: K)) -> (forall e, In e (own' :: K) -> In e ds) ->
+  let c' := deliver_all c0 ds in
+  k_cur (kc c') = e_id (mip03_min d (own' :: K)) + 1 /\ k_epoch (kc c') = k_epoch (kc c) + 1.
+Proof.
+  intros c own K ds d Hfr _ Hts _ _ _ own' c0 (Hne & Hcomp & _ & Hnd & Hinj) HnId HnKey Hsub Hsup. cbv zeta.
+  pose proof (fork_ready_secret c Hfr) as Hsec.
+  destruct Hfr as (Hact & _ & Hret & _ & Hq & _).
+  rewrite Forall_forall in Hcomp.
+  set (k1 := with_pending (ensure_secret (kc c)) (Some (commit_of own'))).
+  assert (Hkc0 : kc c0 = k1) by reflexivity.
+  assert (Hk1a : k_active k1 = true) by (unfold k1; cbn [with_pending k_active]; rewrite es_active; exact Hact).
+  assert (Hk1s : dget (k_epoch k1) (k_secrets k1) = Some (k_cur k1)) by exact Hsec.
+  assert (Happ : forall x, In x (own' :: K) -> applies k1 (me c) x).
+  { intros x [<-|Hx].
+    - unfold applies, k1. cbn [own' e_kind e_state e_epoch e_removes e_ts e_author with_pending k_cur k_epoch k_pending].
+      rewrite es_cur, es_epoch. repeat split; try assumption. right. split; reflexivity.
+    - destruct (Hcomp x Hx) as (K0 & Hst & Hep & Hau & Hauth & Hrm & Hrefs & Htx & _).
+      unfold applies, k1. cbn [with_pending k_cur k_epoch k_pending]. rewrite es_cur, es_epoch.
+      repeat split; try assumption. left. repeat split; assumption. }
+  assert (Hinj' : forall x y, In x (own' :: K) -> In y (own' :: K) -> e_id x = e_id y -> x = y).
+  { intros x y [<-|Hx] [<-|Hy] E.
+    - reflexivity.
+    - exfalso. apply HnId. change (e_id own) with (e_id own'). rewrite E. apply in_map. exact Hy.
+    - exfalso. apply HnId. change (e_id own) with (e_id own'). rewrite <- E. apply in_map. exact Hx.
+    - exact (Hinj x y Hx Hy E). }
+  assert (Forked k1 (me c) (retention c) (mip03_min d (own' :: K)) (deliver_all c0 ds)) as HF.
+  { apply (fork_converges k1 (me c) (retention c) Hk1a Hk1s Hret (own' :: K) Happ Hinj' c0 ds d).
+    - reflexivity.
+    - reflexivity.
+    - rewrite Hkc0. exact (es_fix _ _ Hk1s).
+    - intros s Hs. change (queue c0) with (queue c) in Hs. specialize (Hq s Hs).
+      unfold k1. cbn [with_pending k_epoch]. rewrite es_epoch. lia.
+    - discriminate.
+    - intros x [<-|Hx].
+      + right. eexists. split; [apply dget_aset_same|]. split; reflexivity.
+      + left. change (dedup c0) with (aset N.eqb (e_id own') (mkD PS_COMMIT (Some (k_epoch (ensure_secret (kc c)))) true None) (dedup c)).
+        rewrite dget_aset_other; [apply (Hcomp x Hx)|].
+        intros E. apply HnId. change (e_id own) with (e_id own'). rewrite <- E. apply in_map. exact Hx.
+    - cbn [map]. constructor; assumption.
+    - exact Hsub.
+    - exact Hsup. }
+  destruct (forked_fields _ _ _ Hk1a _ _ HF) as (A1 & A2 & _ & _).
+  unfold k1 in A2. cbn [with_pending k_epoch] in A2. rewrite es_epoch in A2. auto.
+Qed.
+
+(* ---- a concrete three-way fork (timestamp tie between two competitors), worst-first delivery with repetitions *)
+Definition ex_c : client := fst (deliver (init_client 1 false 3) (cmt 10 100 5 2 0 1 true)).
+Definition ex_A : event := cmt 20 100 7 2 11 2 true.
+Definition ex_B : event := cmt 30 100 3 3 11 2 true.
+Definition ex_C : event := cmt 40 90 9 4 11 2 true.
+Definition C01_fork_example_statement : Prop :=
+  let K := [ex_A; ex_B; ex_C] in
+  let ds := [ex_A; ex_B; ex_A; ex_C; ex_B; ex_C; ex_A] in
+  fork_ready ex_c /\ fork_set ex_c K /\ mip03_min ex_A K = ex_C /\
+  k_cur (kc (deliver_all ex_c ds)) = e_id ex_C + 1 /\ k_epoch (kc (deliver_all ex_c ds)) = 3 /\
+  rollbacks (deliver_all ex_c ds) = 2.
+
+Lemma c01_fork_example : C01_fork_example_statement.
+Proof.
+  unfold C01_fork_example_statement. cbv zeta.
+  split; [|split; [|split; [|split; [|split]]]].
+  - unfold fork_ready. vm_compute. repeat split; try discriminate.
+    + intros s [<-|[]]. reflexivity.
+    + intros x [= <-]. reflexivity.
+  - unfold fork_set. split; [discriminate|]. split; [|split; [|split]].
+    + repeat constructor; vm_compute; try reflexivity; discriminate.
+    + vm_compute. repeat constructor; cbn [In]; intros H; repeat destruct H as [H|H]; try discriminate H; exact H.
+    + vm_compute. repeat constructor; cbn [In]; intros H; repeat destruct H as [H|H]; try discriminate H; exact H.
+    + intros e e' He He'. cbn [In] in He, He'.
+      destruct He as [<-|[<-|[<-|[]]]]; destruct He' as [<-|[<-|[<-|[]]]]; intros E; try reflexivity; vm_compute in E; discriminate E.
+  - vm_compute. reflexivity.
+  - vm_compute. reflexivity.
+  - vm_compute. reflexivity.
+  - vm_compute. reflexivity.
+Qed.
+
+(* ================================================================ the snapshot queue is well formed in every reachable state *)
+Lemma sorted_app_last q s : snaps_sorted q -> Forall (fun t => sn_epoch t < sn_epoch s) q -> snaps_sorted (q ++ [s]).
+Proof.
+  induction q as [|a r IH]; intros Hs Hb; cbn [app snaps_sorted]; [split; [constructor|exact I]|].
+  destruct Hs as [Ha Hr]. inversion Hb as [|? ? Hab Hrb]; subst. split.
+  - apply Forall_app. split; [exact Ha|]. constructor; [exact Hab|constructor].
+  - exact (IH Hr Hrb).
+Qed.
+
+Lemma sorted_drop_front n : forall q, snaps_sorted q -> snaps_sorted (drop_front n q).
+Proof.
+  induction n as [|n IH]; intros q H; cbn [drop_front]; [exact H|].
+  destruct q as [|a r]; [exact I|]. apply IH. exact (proj2 H).
+Qed.
+
+Lemma sorted_prune r q : snaps_sorted q -> snaps_sorted (prune r q).
+Proof. intros H. unfold prune. destruct (lenN q <=? r); [exact H|apply sorted_drop_front; exact H]. Qed.
+
+Lemma sorted_take_until ep q : snaps_sorted q -> snaps_sorted (take_until ep q).
+Proof.
+  induction q as [|a r IH]; intros H; cbn [take_until]; [exact I|].
+  destruct (sn_epoch a =? ep); [exact I|]. destruct H as [Ha Hr]. split; [apply Forall_take_until; exact Ha|exact (IH Hr)].
+Qed.
+
+Lemma take_until_below ep q s : snaps_sorted q -> find_snap ep q = Some s -> Forall (fun t => sn_epoch t < sn_epoch s) (take_until ep q).
+Proof.
+  induction q as [|a r IH]; intros H Hf; cbn [take_until]; [constructor|].
+  unfold find_snap in Hf. cbn [find] in Hf. destruct (sn_epoch a =? ep); [constructor|].
+  destruct H as [Ha Hr]. constructor; [|exact (IH Hr Hf)].
+  apply find_snap_In in Hf. rewrite Forall_forall in Ha. exact (Ha s (proj1 Hf)).
+Qed.
+
+Lemma advance_epoch k cm save ev : k_epoch (advance k cm save ev) = k_epoch k + 1.
+Proof. destruct cm as [[id data] rm]. unfold advance. destruct (save && negb ev); rewrite ?es_epoch; reflexivity. Qed.
+
+Lemma qwf_same c c' : k_epoch (kc c') = k_epoch (kc c) -> queue c' = queue c -> queue_wf c -> queue_wf c'.
+Proof. intros E Q H. unfold queue_wf. rewrite E, Q. exact H. Qed.
+
+Lemma qwf_bump c c' : k_epoch (kc c') = k_epoch (kc c) + 1 -> queue c' = queue c -> queue_wf c -> queue_wf c'.
+Proof.
+  intros E Q [H1 H2]. unfold queue_wf. rewrite E, Q. split; [|exact H2].
+  eapply Forall_impl; [|exact H1]. intros s [A B]. split; [exact A|lia].
+Qed.
+
+Lemma qwf_ens c : queue_wf c -> queue_wf (ens c).
+Proof. apply qwf_same; [apply es_epoch|reflexivity]. Qed.
+
+Lemma qwf_apply_commit c e cm : queue_wf c -> queue_wf (fst (apply_commit c e cm)).
+Proof.
+  intros [H1 H2].
+  assert (queue_wf (set_core (take_snapshot c e) (advance (kc (take_snapshot c e)) cm true (evicted_by c (snd cm))))) as H.
+  { unfold queue_wf. cbn [set_core kc queue take_snapshot set_queue]. rewrite advance_epoch. split.
+    - apply Forall_prune. apply Forall_app. split.
+      + eapply Forall_impl; [|exact H1]. intros s [A B]. split; [exact A|lia].
+      + constructor; [|constructor]. cbn [sn_core sn_epoch]. split; [reflexivity|lia].
+    - apply sorted_prune. apply sorted_app_last; [exact H2|].
+      eapply Forall_impl; [|exact H1]. intros s [_ B]. exact B. }
+  unfold apply_commit. destruct (evicted_by c (snd cm)); exact H.
+Qed.
+
+Lemma qwf_rollback c ep s : queue_wf c -> find_snap ep (queue c) = Some s -> queue_wf (rollback c ep s).
+Proof.
+  intros [H1 H2] Hf. unfold queue_wf.
+  change (kc (rollback c ep s)) with (sn_core s). change (queue (rollback c ep s)) with (take_until ep (queue c)).
+  pose proof (find_snap_In _ _ _ Hf) as [Hin _].
+  rewrite Forall_forall in H1. destruct (H1 s Hin) as [Es _]. rewrite Es. split; [|apply sorted_take_until; exact H2].
+  pose proof (take_until_below ep (queue c) s H2 Hf) as Hb.
+  pose proof (Forall_take_until _ ep (queue c) (proj2 (Forall_forall _ _) H1)) as Hc.
+  rewrite Forall_forall in *. intros t Ht. split; [exact (proj1 (Hc t Ht))|exact (Hb t Ht)].
+Qed.
+
+Lemma qwf_late c e r : queue_wf c -> queue_wf (fst (late c e r)).
+Proof.
+  intros H. unfold late. destruct (dget (e_id e) (dedup c)) as [d|]; [|exact H].
+  destruct (d_state d =? PS_COMMIT); exact H.
+Qed.
+
+Lemma qwf_here c e r : queue_wf c -> queue_wf (fst (here c e r)).
+Proof.
+  intros H. unfold here.
+  destruct (e_author e =? me c).
+  - unfold own_here.
+    destruct (if e_kind e =? 0 then k_pending (kc c) else None) as [cm|]; [apply qwf_apply_commit; exact H|].
+    destruct (dget (e_id e) (dedup c)) as [d|]; [|exact H].
+    destruct ((d_state d =? PS_CREATED) || (d_state d =? PS_RETRY)).
+    + destruct (d_msg d) as [m|]; [|exact H]. destruct (dget m (msgs c)); exact H.
+    + destruct (d_state d =? PS_COMMIT); exact H.
+  - destruct (e_kind e =? 1).
+    + unfold app_here. destruct (negb _ || existsb (N.eqb (e_msg e)) (k_seen (kc c))); [exact H|].
+      cbn [fst]. revert H. apply qwf_same; [|reflexivity]. cbn [set_core kc].
+      rewrite (proj1 (proj2 (upd_last_fields _ _ _))). reflexivity.
+    + destruct (e_kind e =? 2).
+      * unfold leave_here. destruct (existsb (N.eqb (100000 + e_id e)) (k_seen (kc c))); [exact H|].
+        destruct (is_admin c && _); [exact H|]. cbn [fst]. destruct (is_admin c); exact H.
+      * unfold commit_here. destruct (negb (forallb _ (e_refs e))); [exact H|].
+        destruct (negb (e_auth e)); [exact H|apply qwf_apply_commit; exact H].
+Qed.
+
+Lemma qwf_process fuel : forall c e, queue_wf c -> queue_wf (fst (process fuel c e)).
+Proof.
+  induction fuel as [|f IH]; intros c e H; rewrite process_unfold.
+  all: destruct (blockedb c e); [exact H|].
+  all: destruct ((e_kind e =? 3) && (e_bad e <? 2)); [exact H|].
+  all: destruct ((e_kind e =? 3) && (e_bad e =? 2)); [exact H|].
+  all: destruct (negb (k_active (kc c))); [exact H|].
+  all: cbv zeta; pose proof (qwf_ens c H) as H1.
+  all: destruct ((e_kind e =? 3) || negb (outer_opens (kc (ens c)) (e_state e))); [exact H1|].
+  all: destruct (wrong_epoch (kc (ens c)) e); [|apply qwf_here; exact H1].
+  all: destruct (is_better (ens c) (e_epoch e) (e_ts e) (e_key e)); [|apply qwf_late; exact H1].
+  all: destruct (find_snap (e_epoch e) (queue (ens c))) as [s|] eqn:Es; [|exact H1].
+  - exact H1.
+  - apply IH. apply qwf_rollback; [exact H1|exact Es].
+Qed.
+
+Lemma queue_wf_init : forall i a r, queue_wf (init_client i a r).
+Proof. intros i a r. split; [constructor|exact I]. Qed.
+
+Lemma queue_wf_deliver : forall c e, queue_wf c -> queue_wf (fst (deliver c e)).
+Proof. intros c e. apply qwf_process. Qed.
+
+Lemma queue_wf_api : forall c e, queue_wf c ->
+  queue_wf (fst (merge_pending c)) /\ queue_wf (committed c e) /\ queue_wf (clear_pending c) /\ queue_wf (sent c e) /\ queue_wf (leave_created c e).
+Proof.
+  intros c e H. split; [|split; [|split; [|split]]].
+  - unfold merge_pending. destruct (k_pending (kc c)) as [cm|]; [|exact H]. cbn [fst].
+    revert H. apply qwf_bump; [|reflexivity]. cbn [set_core kc]. apply advance_epoch.
+  - revert H. apply qwf_same; [|reflexivity]. unfold committed. cbn [put_dedup set_dedup set_core kc with_pending k_epoch]. apply es_epoch.
+  - exact H.
+  - revert H. apply qwf_same; [|reflexivity]. unfold sent. cbn [put_dedup set_dedup set_msgs set_core kc].
+    rewrite (proj1 (proj2 (upd_last_fields _ _ _))). apply es_epoch.
+  - revert H. apply qwf_same; [|reflexivity]. unfold leave_created. cbn [put_dedup set_dedup set_core kc with_props k_epoch]. apply es_epoch.
+Qed.
+
+Lemma queue_wf_no_current : forall c, queue_wf c -> forall s, In s (queue c) -> sn_epoch s <> k_epoch (kc c).
+Proof. intros c [H _] s Hs. rewrite Forall_forall in H. destruct (H s Hs) as [_ L]. lia. Qed.
+
+Lemma queue_wf_deliver_all ds : forall c, queue_wf c -> queue_wf (deliver_all c ds).
+Proof.
+  induction ds as [|e ds IH]; intros c H; [exact H|].
+  unfold deliver_all. cbn [fold_left]. apply IH. apply queue_wf_deliver. exact H.
+Qed.
+
+Lemma redelivery_idempotent_reachable : forall i a r ds e n, let c := deliver_all (init_client i a r) ds in
+  proj (deliver_all (fst (deliver c e)) (repeat e n)) = proj (fst (deliver c e)).
+Proof.
+  intros i a r ds e n c. apply redelivery_idempotent_n.
+  - apply inv_deliver_all. apply inv_init.
+  - apply queue_wf_no_current. apply queue_wf_deliver_all. apply queue_wf_init.
+Qed.
+
+(* ---- sent_as (message filed under a caller-chosen key): same invariants as `sent` *)
+Lemma inv_sent_as : forall c e key, Inv c -> Inv (sent_as c e key).
+Proof.
+  intros c e key H. unfold sent_as. apply Inv_set_core; [|split; [exact (core_ok_ensure _ (proj1 H))|exact (proj2 H)]].
+  apply core_ok_upd_last. exact (core_ok_ensure _ (proj1 H)).
+Qed.
+
+Lemma queue_wf_sent_as : forall c e key, queue_wf c -> queue_wf (sent_as c e key).
+Proof.
+  intros c e key. apply qwf_same; [|reflexivity]. unfold sent_as. cbn [put_dedup set_dedup set_msgs set_core kc].
+  rewrite (proj1 (proj2 (upd_last_fields _ _ _))). apply es_epoch.
+Qed.
